@@ -713,15 +713,31 @@ Qed.
 (*    consumed tokens by the stratified grammar  not > and > or            *)
 (* ====================================================================== *)
 
+(* {COMMA ID}* with the identifiers read *)
+Inductive H_idtail : list token -> list str -> Prop :=
+| HT_nil : H_idtail [] []
+| HT_cons : forall c t T l, ttype c = c02_T_COMMA -> ttype t = c02_T_IDENTIFIER -> H_idtail T l ->
+    H_idtail (c :: t :: T) (ttext t :: l).
+
+(* "cds conditions must contain more than a single identifier" *)
+Definition cds_content (cs : list cond) : bool :=
+  match cs with [] => false | [c] => negb (is_single_cond c) | _ => true end.
+
 (* lists of operands are kept newest-first ("R"), as the parser's loops build them *)
 Inductive G_core (allow : bool) : bool -> list token -> cond -> Prop :=
 | GC_id : forall neg t, ttype t = c02_T_IDENTIFIER -> G_core allow neg [t] (CSingle neg (ttext t))
 | GC_grp : forall neg o c T racc, ttype o = c02_T_GROUP_OPEN -> ttype c = c02_T_GROUP_CLOSE ->
     G_orsR allow T racc -> G_core allow neg (o :: T ++ [c]) (CGroup neg (rev racc))
 | GC_cds : forall neg k o c T racc, allow = true -> ttype k = c02_T_CDS -> ttype o = c02_T_GROUP_OPEN ->
-    ttype c = c02_T_GROUP_CLOSE -> G_orsR false T racc -> G_core allow neg (k :: o :: T ++ [c]) (CCds neg (rev racc))
-| GC_min : forall neg m T k opts, allow = true -> ttype m = c02_T_MINIMUM -> G_core allow neg (m :: T) (CMin neg k opts)
-| GC_score : forall neg m T name sc, ttype m = c02_T_SCORE -> G_core allow neg (m :: T) (CScore neg name sc)
+    ttype c = c02_T_GROUP_CLOSE -> G_orsR false T racc -> cds_content (rev racc) = true ->
+    G_core allow neg (k :: o :: T ++ [c]) (CCds neg (rev racc))
+| GC_min : forall neg m o k cm lo i Tt l lc c, allow = true -> ttype m = c02_T_MINIMUM ->
+    ttype o = c02_T_GROUP_OPEN -> ttype k = c02_T_INT -> ttype cm = c02_T_COMMA -> ttype lo = c02_T_LIST_OPEN ->
+    ttype i = c02_T_IDENTIFIER -> H_idtail Tt l -> ttype lc = c02_T_LIST_CLOSE -> ttype c = c02_T_GROUP_CLOSE ->
+    G_core allow neg (m :: o :: k :: cm :: lo :: i :: Tt ++ [lc; c]) (CMin neg (int_of (ttext k)) (ttext i :: l))
+| GC_score : forall neg m o i cm sc c, ttype m = c02_T_SCORE -> ttype o = c02_T_GROUP_OPEN ->
+    ttype i = c02_T_IDENTIFIER -> ttype cm = c02_T_COMMA -> ttype sc = c02_T_INT -> ttype c = c02_T_GROUP_CLOSE ->
+    G_core allow neg [m; o; i; cm; sc; c] (CScore neg (ttext i) (int_of (ttext sc)))
 with G_un (allow : bool) : list token -> cond -> Prop :=
 | GU_pos : forall T c, G_core allow false T c -> G_un allow T c
 | GU_neg : forall nt T c, ttype nt = c02_T_NOT -> G_core allow true T c -> G_un allow (nt :: T) c
@@ -756,21 +772,31 @@ Proof.
   unfold trace. repeat step H; inversion H; subst; reflexivity.
 Qed.
 
-Lemma comma_loop_trace : forall f acc s l s', comma_loop f acc s = Ok (l, s') -> exists T, trace s s' T.
+Lemma comma_loop_trace : forall f acc s l s', comma_loop f acc s = Ok (l, s') ->
+  exists T l', trace s s' T /\ H_idtail T l' /\ l = rev acc ++ l'.
 Proof.
   induction f as [|f IH]; intros acc s l s' H; cbn [comma_loop] in H; [discriminate H|].
   repeat step H.
   - match goal with E1 : consume c02_T_COMMA _ = Ok _, E2 : consume c02_T_IDENTIFIER _ = Ok _ |- _ =>
-      apply consume_trace in E1; apply consume_trace in E2; destruct E1 as [E1 _]; destruct E2 as [E2 _] end.
-    apply IH in H. destruct H as [T HT]. eexists. eapply trace_app; [eapply trace_app; eassumption|eassumption].
-  - inversion H; subst. exists []. apply trace_nil.
+      apply consume_trace in E1; apply consume_trace in E2; destruct E1 as [E1 Hc]; destruct E2 as [E2 Ht] end.
+    apply IH in H. destruct H as [T [l' [HT [Hid Hl]]]].
+    match goal with Hc : ttype ?c = c02_T_COMMA, Ht : ttype ?t = c02_T_IDENTIFIER |- _ =>
+      exists (c :: t :: T), (ttext t :: l') end.
+    split; [|split].
+    + eapply (trace_app _ _ _ [_]); [eassumption|]. eapply (trace_app _ _ _ [_]); eassumption.
+    + apply HT_cons; assumption.
+    + rewrite Hl. cbn [rev]. rewrite <- app_assoc. reflexivity.
+  - inversion H; subst. exists [], []. split; [apply trace_nil|]. split; [constructor|]. rewrite app_nil_r. reflexivity.
 Qed.
 
-Lemma parse_comma_ids_trace : forall f s l s', parse_comma_ids f s = Ok (l, s') -> exists T, trace s s' T.
+Lemma parse_comma_ids_trace : forall f s l s', parse_comma_ids f s = Ok (l, s') ->
+  exists i Tt l', trace s s' (i :: Tt) /\ ttype i = c02_T_IDENTIFIER /\ H_idtail Tt l' /\ l = ttext i :: l'.
 Proof.
   intros f s l s' H. unfold parse_comma_ids in H. repeat step H.
-  match goal with E1 : consume _ _ = Ok _ |- _ => apply consume_trace in E1; destruct E1 as [E1 _] end.
-  apply comma_loop_trace in H. destruct H as [T HT]. eexists. eapply trace_app; eassumption.
+  match goal with E1 : consume _ _ = Ok _ |- _ => apply consume_trace in E1; destruct E1 as [E1 Hi] end.
+  apply comma_loop_trace in H. destruct H as [T [l' [HT [Hid Hl]]]].
+  do 3 eexists. split; [eapply (trace_app _ _ _ [_]); eassumption|]. split; [assumption|]. split; [eassumption|].
+  rewrite Hl. reflexivity.
 Qed.
 
 Ltac ctrace :=
@@ -781,22 +807,35 @@ Ltac ctrace :=
 Ltac tr := first [eassumption | apply trace_nil | (eapply trace_app; [eassumption | tr])].
 
 Lemma parse_minimum_trace : forall f n s c s', parse_minimum f n s = Ok (c, s') ->
-  exists m T k opts, trace s s' (m :: T) /\ ttype m = c02_T_MINIMUM /\ c = CMin n k opts.
+  exists m o k cm lo i Tt l lc c', trace s s' (m :: o :: k :: cm :: lo :: i :: Tt ++ [lc; c']) /\
+    ttype m = c02_T_MINIMUM /\ ttype o = c02_T_GROUP_OPEN /\ ttype k = c02_T_INT /\ ttype cm = c02_T_COMMA /\
+    ttype lo = c02_T_LIST_OPEN /\ ttype i = c02_T_IDENTIFIER /\ H_idtail Tt l /\ ttype lc = c02_T_LIST_CLOSE /\
+    ttype c' = c02_T_GROUP_CLOSE /\ c = CMin n (int_of (ttext k)) (ttext i :: l).
 Proof.
   intros f n s c s' H. unfold parse_minimum in H. repeat step H. inversion H; subst; clear H.
-  match goal with E : parse_comma_ids _ _ = Ok _ |- _ => apply parse_comma_ids_trace in E; destruct E as [Tc HTc] end.
+  match goal with E : parse_comma_ids _ _ = Ok _ |- _ => apply parse_comma_ids_trace in E;
+    destruct E as [i [Tt [l' [HTc [Hi [Hid Hl]]]]]] end.
   match goal with E : mk_min _ _ _ = Ok _ |- _ => unfold mk_min in E; repeat step E; inversion E; subst; clear E end.
   ctrace.
-  do 4 eexists. split; [|split; [eassumption|reflexivity]].
-  eapply (trace_app _ _ _ [_]); [eassumption|tr].
+  repeat match goal with |- exists _, _ => eexists end.
+  split; [|repeat split; try eassumption].
+  eapply (trace_app _ _ _ [_]); [eassumption|]. eapply (trace_app _ _ _ [_]); [eassumption|].
+  eapply (trace_app _ _ _ [_]); [eassumption|]. eapply (trace_app _ _ _ [_]); [eassumption|].
+  eapply (trace_app _ _ _ [_]); [eassumption|]. eapply (trace_app _ _ _ (_ :: _)); [eassumption|].
+  eapply (trace_app _ _ _ [_]); eassumption.
 Qed.
 
 Lemma parse_score_trace : forall n s c s', parse_score n s = Ok (c, s') ->
-  exists m T name sc, trace s s' (m :: T) /\ ttype m = c02_T_SCORE /\ c = CScore n name sc.
+  exists m o i cm sc c', trace s s' [m; o; i; cm; sc; c'] /\ ttype m = c02_T_SCORE /\ ttype o = c02_T_GROUP_OPEN /\
+    ttype i = c02_T_IDENTIFIER /\ ttype cm = c02_T_COMMA /\ ttype sc = c02_T_INT /\ ttype c' = c02_T_GROUP_CLOSE /\
+    c = CScore n (ttext i) (int_of (ttext sc)).
 Proof.
   intros n s c s' H. unfold parse_score in H. repeat step H. inversion H; subst; clear H. ctrace.
-  do 4 eexists. split; [|split; [eassumption|reflexivity]].
-  eapply (trace_app _ _ _ [_]); [eassumption|tr].
+  repeat match goal with |- exists _, _ => eexists end.
+  split; [|repeat split; try eassumption].
+  eapply (trace_app _ _ _ [_]); [eassumption|]. eapply (trace_app _ _ _ [_]); [eassumption|].
+  eapply (trace_app _ _ _ [_]); [eassumption|]. eapply (trace_app _ _ _ [_]); [eassumption|].
+  eapply (trace_app _ _ _ [_]); eassumption.
 Qed.
 
 Lemma is_not_cases : forall s b s1, is_not s = Ok (b, s1) ->
@@ -856,7 +895,7 @@ Definition Q_single f := forall allow s c s', parse_single f allow s = Ok (c, s'
   exists T, trace s s' T /\ G_un allow T c.
 Definition Q_cds f := forall s cs s', parse_cds f s = Ok (cs, s') ->
   exists k o T c, trace s s' (k :: o :: T ++ [c]) /\ ttype k = c02_T_CDS /\ ttype o = c02_T_GROUP_OPEN /\
-                  ttype c = c02_T_GROUP_CLOSE /\ G_orsR false T (rev cs).
+                  ttype c = c02_T_GROUP_CLOSE /\ G_orsR false T (rev cs) /\ cds_content cs = true.
 Definition Q_ands f := forall allow lv s a s', parse_ands f allow lv s = Ok (a, s') ->
   exists T ra, trace s s' T /\ a = CAnd (rev ra) /\ cur_is c02_T_AND s' = false /\ (2 <= length ra)%nat /\
                forall Tl, G_un allow Tl lv -> G_andsR allow (Tl ++ T) ra.
@@ -888,18 +927,21 @@ Proof.
         -- rewrite <- (rev_involutive l) at 1. apply GC_grp; assumption.
       * (* minimum *)
         match goal with C : (_ && _) = true |- _ => apply andb_true_iff in C; destruct C as [Ca _] end.
-        apply parse_minimum_trace in H. destruct H as [m [T [k [opts [HT [Hm Hc]]]]]]. subst.
-        eapply wrap_not; [eassumption|eassumption|]. apply GC_min; [reflexivity|assumption].
+        apply parse_minimum_trace in H.
+        destruct H as [m [o [k [cm [lo [i [Tt [l0 [lc [c' [HT [Hm [Ho [Hk [Hcm [Hlo [Hi [Hid [Hlc [Hc' Hc]]]]]]]]]]]]]]]]]]]].
+        subst. eapply wrap_not; [eassumption|eassumption|]. apply GC_min; try assumption. reflexivity.
       * (* cds *)
         inversion H; subst; clear H.
         match goal with E : mk_cds _ _ = Ok _ |- _ => apply mk_cds_ok in E; subst end.
         match goal with C : (_ && (_ =? c02_T_CDS)) = true |- _ => apply andb_true_iff in C; destruct C as [Ca _] end.
         match goal with E : parse_cds _ _ = Ok _ |- _ => apply IHc in E;
-          destruct E as [k [o [T [c [HT [Hk [Ho [Hc HG]]]]]]]] end.
+          destruct E as [k [o [T [c [HT [Hk [Ho [Hc [HG Hcont]]]]]]]]] end.
         eapply wrap_not; [eassumption|eassumption|].
-        rewrite <- (rev_involutive l) at 1. subst. apply GC_cds; try assumption. reflexivity.
+        rewrite <- (rev_involutive l) at 1. subst. apply GC_cds; try assumption; [reflexivity|].
+        rewrite rev_involutive. assumption.
       * (* minscore *)
-        apply parse_score_trace in H. destruct H as [m [T [name [sc [HT [Hm Hc]]]]]]. subst.
+        apply parse_score_trace in H.
+        destruct H as [m [o [i [cm [sc [c' [HT [Hm [Ho [Hi [Hcm [Hsc [Hc' Hc]]]]]]]]]]]]]. subst.
         eapply wrap_not; [eassumption|eassumption|]. apply GC_score; assumption.
       * (* identifier *)
         inversion H; subst; clear H. ctrace.
@@ -914,7 +956,9 @@ Proof.
           exists k, o, T, c; split;
           [exact (trace_app _ _ _ [k] _ Hk (trace_app _ _ _ [o] _ Ho (trace_app _ _ _ _ _ HT' Hc)))|]
         end;
-        repeat split; assumption.
+        repeat split; try assumption;
+        match goal with |- cds_content _ = true => cbn [cds_content]; try reflexivity;
+          match goal with C : is_single_cond _ = false |- _ => rewrite C; reflexivity end end.
     + (* parse_ands *)
       intros allow lv s a s' H. cbn [parse_ands] in H. repeat step H. inversion H; subst; clear H.
       match goal with E : mk_and _ = Ok _ |- _ => apply mk_and_ok in E; subst end.
@@ -1231,4 +1275,2302 @@ Qed.
 Lemma no_doubled_not : forall c, names_ok c = true -> starts_with (codes "not not ") (show c) = false.
 Proof.
   intros c H. destruct (show_tail c H [] I) as [_ H2]. rewrite app_nil_r in H2. exact H2.
+Qed.
+
+(* ====================================================================== *)
+(* H. completeness: every token list of the documented grammar is accepted *)
+(*    and read as the grammar says                                         *)
+(* ====================================================================== *)
+
+(* the parser state in front of a token list *)
+Definition st (l cons : list token) (als : list (str * list token)) : pst :=
+  match l with [] => mkP None [] cons als | t :: r => mkP (Some t) r cons als end.
+Definition hd_is (ty : Z) (l : list token) : bool := match l with [] => false | t :: _ => ttype t =? ty end.
+(* no token of l / not the first token of l is an alias name *)
+Definition nah (als : list (str * list token)) (l : list token) : bool := forallb (fun t => negb (alias_head als t)) l.
+Definition nahd (als : list (str * list token)) (l : list token) : bool :=
+  match l with [] => true | t :: _ => negb (alias_head als t) end.
+
+Lemma cur_is_st : forall ty l cons als, cur_is ty (st l cons als) = hd_is ty l.
+Proof. intros ty [|t r] cons als; reflexivity. Qed.
+
+Lemma consume_st : forall k t L cons als, ttype t = k -> nahd als L = true ->
+  consume k (st (t :: L) cons als) = Ok (t, st L (t :: cons) als).
+Proof.
+  intros k t L cons als Hk Hn. unfold consume, st. cbn [cur rest consumed aliases].
+  rewrite Hk, Z.eqb_refl. cbn [negb]. destruct L as [|n r]; [reflexivity|].
+  cbn [nahd] in Hn. unfold alias_head in Hn. apply negb_true_iff in Hn.
+  destruct (ttype n =? c02_T_IDENTIFIER); [|reflexivity]. cbn [andb] in Hn.
+  destruct (alias_get (ttext n) als); [discriminate Hn|reflexivity].
+Qed.
+
+Lemma nahd_app : forall als A B, nah als A = true -> nahd als B = true -> nahd als (A ++ B) = true.
+Proof. intros als [|a A] B HA HB; [exact HB|]. cbn [nah forallb] in HA. apply andb_true_iff in HA. cbn [app nahd]. tauto. Qed.
+
+Lemma nah_app : forall als A B, nah als (A ++ B) = nah als A && nah als B.
+Proof. intros. apply forallb_app. Qed.
+
+Definition notp (neg : bool) (N : list token) : Prop :=
+  if neg then exists nt, N = [nt] /\ ttype nt = c02_T_NOT else N = [].
+
+(*  un    ::= [NOT] ( ID | minscore ( ID , INT ) | minimum ( INT , [ ID {, ID} ] ) | ( ors ) | cds ( ors' ) )
+    item  ::= un | un AND un {AND un}            (an AndCondition)
+    ors   ::= item {OR item}
+    minimum and cds only where allow = true (outside cds); ors' = ors with allow = false *)
+Inductive H_un (allow : bool) : list token -> cond -> Prop :=
+| HU_id : forall neg N t, notp neg N -> ttype t = c02_T_IDENTIFIER -> H_un allow (N ++ [t]) (CSingle neg (ttext t))
+| HU_score : forall neg N m o i cm sc c, notp neg N -> ttype m = c02_T_SCORE -> ttype o = c02_T_GROUP_OPEN ->
+    ttype i = c02_T_IDENTIFIER -> ttype cm = c02_T_COMMA -> ttype sc = c02_T_INT -> ttype c = c02_T_GROUP_CLOSE ->
+    H_un allow (N ++ [m; o; i; cm; sc; c]) (CScore neg (ttext i) (int_of (ttext sc)))
+| HU_min : forall neg N m o k cm lo i Tt l lc c, notp neg N -> allow = true -> ttype m = c02_T_MINIMUM ->
+    ttype o = c02_T_GROUP_OPEN -> ttype k = c02_T_INT -> ttype cm = c02_T_COMMA -> ttype lo = c02_T_LIST_OPEN ->
+    ttype i = c02_T_IDENTIFIER -> H_idtail Tt l -> ttype lc = c02_T_LIST_CLOSE -> ttype c = c02_T_GROUP_CLOSE ->
+    H_un allow (N ++ m :: o :: k :: cm :: lo :: i :: Tt ++ [lc; c]) (CMin neg (int_of (ttext k)) (ttext i :: l))
+| HU_grp : forall neg N o T cs c, notp neg N -> ttype o = c02_T_GROUP_OPEN -> ttype c = c02_T_GROUP_CLOSE ->
+    H_ors allow T cs -> H_un allow (N ++ o :: T ++ [c]) (CGroup neg cs)
+| HU_cds : forall neg N k o T cs c, notp neg N -> allow = true -> ttype k = c02_T_CDS -> ttype o = c02_T_GROUP_OPEN ->
+    ttype c = c02_T_GROUP_CLOSE -> H_ors false T cs -> cds_content cs = true ->
+    H_un allow (N ++ k :: o :: T ++ [c]) (CCds neg cs)
+with H_andtail (allow : bool) : list token -> list cond -> Prop :=
+| HA_nil : H_andtail allow [] []
+| HA_cons : forall a T c T' cs, ttype a = c02_T_AND -> H_un allow T c -> H_andtail allow T' cs ->
+    H_andtail allow (a :: T ++ T') (c :: cs)
+with H_item (allow : bool) : list token -> cond -> Prop :=
+| HI_un : forall T c, H_un allow T c -> H_item allow T c
+| HI_and : forall T1 c1 T2 cs, H_un allow T1 c1 -> H_andtail allow T2 cs -> cs <> [] ->
+    H_item allow (T1 ++ T2) (CAnd (c1 :: cs))
+with H_ortail (allow : bool) : list token -> list cond -> Prop :=
+| HO_nil : H_ortail allow [] []
+| HO_cons : forall o T c T' cs, ttype o = c02_T_OR -> H_item allow T c -> H_ortail allow T' cs ->
+    H_ortail allow (o :: T ++ T') (c :: cs)
+with H_ors (allow : bool) : list token -> list cond -> Prop :=
+| HO_ors : forall T c T' cs, H_item allow T c -> H_ortail allow T' cs -> H_ors allow (T ++ T') (c :: cs).
+
+Scheme H_un_mut := Minimality for H_un Sort Prop
+  with H_andtail_mut := Minimality for H_andtail Sort Prop
+  with H_item_mut := Minimality for H_item Sort Prop
+  with H_ortail_mut := Minimality for H_ortail Sort Prop
+  with H_ors_mut := Minimality for H_ors Sort Prop.
+Combined Scheme H_mutind from H_un_mut, H_andtail_mut, H_item_mut, H_ortail_mut, H_ors_mut.
+
+
+Ltac tyc := repeat match goal with
+  | |- context [Z.eqb ?a ?b] =>
+    let a' := eval cbv in a in
+    let b' := eval cbv in b in
+    match a' with
+    | Zpos _ => match b' with Zpos _ => let v := eval cbv in (Z.eqb a' b') in change (Z.eqb a b) with v end
+    end
+  end.
+Ltac lenf H := repeat first [rewrite app_length in H | progress cbn [length] in H].
+Ltac anorm := repeat first [rewrite <- app_assoc | progress cbn [app]].
+Ltac lnorm := repeat first [rewrite rev_app_distr | rewrite <- app_assoc | progress cbn [rev app]].
+
+Lemma is_not_st : forall neg N X cons als, notp neg N -> hd_is c02_T_NOT X = false -> nahd als X = true ->
+  is_not (st (N ++ X) cons als) = Ok (neg, st X (rev N ++ cons) als).
+Proof.
+  intros neg N X cons als HN HX Hn. unfold is_not. rewrite cur_is_st. destruct neg; cbn [notp] in HN.
+  - destruct HN as [nt [-> Hnt]]. cbn [app hd_is]. rewrite Hnt, Z.eqb_refl.
+    rewrite consume_st by assumption. reflexivity.
+  - subst N. cbn [app]. rewrite HX. reflexivity.
+Qed.
+
+Lemma comma_loop_complete : forall T l, H_idtail T l -> forall acc R cons f als,
+  nah als T = true -> nahd als R = true -> hd_is c02_T_COMMA R = false -> (length T + 1 <= f)%nat ->
+  comma_loop f acc (st (T ++ R) cons als) = Ok (rev acc ++ l, st R (rev T ++ cons) als).
+Proof.
+  induction 1 as [|c t T l Hc Ht HT IH]; intros acc R cons f als Hna HR Hf Hfuel;
+    (destruct f as [|f]; [clear - Hfuel; cbn [length] in Hfuel; lia|]); cbn [comma_loop]; rewrite cur_is_st.
+  - cbn [app]. rewrite Hf. rewrite app_nil_r. reflexivity.
+  - cbn [app hd_is]. rewrite Hc, Z.eqb_refl.
+    cbn [nah forallb] in Hna. apply andb_true_iff in Hna. destruct Hna as [Hn1 Hna].
+    apply andb_true_iff in Hna. destruct Hna as [Hn2 Hna].
+    rewrite consume_st; [|assumption|cbn [nahd]; assumption]. cbn [bind].
+    rewrite consume_st; [|assumption|apply nahd_app; assumption]. cbn [bind].
+    rewrite IH; [|assumption|assumption|assumption|clear - Hfuel; cbn [length] in Hfuel; lia].
+    cbn [rev]. lnorm. reflexivity.
+Qed.
+
+Lemma has_dup_nrb_group : forall n cs, nrb (CGroup n cs) = true -> mk_group n cs = Ok (CGroup n cs) /\ forallb nrb cs = true.
+Proof.
+  intros n cs H. cbn [nrb] in H. apply andb_true_iff in H. destruct H as [H1 H2]. apply negb_true_iff in H1.
+  unfold mk_group, check_operands. rewrite H1. split; [reflexivity|assumption].
+Qed.
+Lemma has_dup_nrb_cds : forall n cs, nrb (CCds n cs) = true -> mk_cds n cs = Ok (CCds n cs) /\ forallb nrb cs = true.
+Proof.
+  intros n cs H. cbn [nrb] in H. apply andb_true_iff in H. destruct H as [H1 H2]. apply negb_true_iff in H1.
+  unfold mk_cds, check_operands. rewrite H1. split; [reflexivity|assumption].
+Qed.
+Lemma has_dup_nrb_and : forall cs, nrb (CAnd cs) = true -> mk_and cs = Ok (CAnd cs) /\ forallb nrb cs = true.
+Proof.
+  intros cs H. cbn [nrb] in H. apply andb_true_iff in H. destruct H as [H1 H2]. apply negb_true_iff in H1.
+  unfold mk_and, check_operands. rewrite H1. split; [reflexivity|assumption].
+Qed.
+Lemma nrb_min : forall n k l, nrb (CMin n k l) = true -> mk_min n k l = Ok (CMin n k l).
+Proof.
+  intros n k l H. cbn [nrb] in H. apply andb_true_iff in H. destruct H as [H1 H2]. apply negb_true_iff in H1.
+  unfold mk_min. rewrite H1. destruct (k <? 1) eqn:E; [lia|reflexivity].
+Qed.
+
+Lemma conditions_end_cons : forall g R c1 c2 als, conditions_end g (st R c1 als) = conditions_end g (st R c2 als).
+Proof. intros g [|t r] c1 c2 als; reflexivity. Qed.
+
+Lemma pc_unfold : forall f allow g s, cur s <> None ->
+  parse_conditions (S f) allow g s =
+  (do (lvalue, s1) <- parse_single f allow s;
+   do (conds, s2) <- cond_loop f allow [] lvalue true s1;
+   do _ <- conditions_end g s2; Ok (conds, s2)).
+Proof. intros f allow g s H. cbn [parse_conditions]. destruct (cur s); [reflexivity|contradiction]. Qed.
+
+Lemma parse_ands_as_loop : forall f allow lv s, cur_is c02_T_AND s = true ->
+  parse_ands (S f) allow lv s =
+  (do (ops, s3) <- and_loop (S f) allow [lv] s; do a <- mk_and ops; Ok (a, s3)).
+Proof.
+  intros f allow lv s H. cbn [parse_ands and_loop]. rewrite H.
+  destruct (consume c02_T_AND s) as [[x s1]|]; cbn [bind]; [|reflexivity].
+  destruct (parse_single f allow s1) as [[c s2]|]; reflexivity.
+Qed.
+
+(* what is proved about each nonterminal; als = the aliases of the parser state *)
+Definition C_un (allow : bool) (T : list token) (c : cond) : Prop :=
+  nrb c = true -> forall als R cons f, nah als T = true -> nahd als R = true -> (2 * length T + 1 <= f)%nat ->
+  parse_single f allow (st (T ++ R) cons als) = Ok (c, st R (rev T ++ cons) als).
+Definition C_andtail (allow : bool) (T : list token) (cs : list cond) : Prop :=
+  forallb nrb cs = true -> forall als acc R cons f, nah als T = true -> nahd als R = true ->
+  hd_is c02_T_AND R = false -> (2 * length T + 1 <= f)%nat ->
+  and_loop f allow acc (st (T ++ R) cons als) = Ok (rev acc ++ cs, st R (rev T ++ cons) als).
+Definition C_item (allow : bool) (T : list token) (c : cond) : Prop :=
+  nrb c = true -> forall als R cons, nah als T = true -> nahd als R = true -> hd_is c02_T_AND R = false ->
+  exists lv T1 T2, T = T1 ++ T2 /\ T1 <> [] /\
+    (forall f, (2 * length T1 + 1 <= f)%nat ->
+       parse_single f allow (st (T ++ R) cons als) = Ok (lv, st (T2 ++ R) (rev T1 ++ cons) als)) /\
+    ((T2 = [] /\ c = lv) \/
+     (hd_is c02_T_AND (T2 ++ R) = true /\
+      forall f, (2 * length T2 + 1 <= f)%nat ->
+        parse_ands f allow lv (st (T2 ++ R) (rev T1 ++ cons) als) = Ok (c, st R (rev T ++ cons) als))).
+Definition C_ortail (allow : bool) (T : list token) (cs : list cond) : Prop :=
+  forallb nrb cs = true -> forall als acc lv app R cons f, nah als T = true -> nahd als R = true ->
+  hd_is c02_T_AND R = false -> hd_is c02_T_OR R = false -> (2 * length T + 2 <= f)%nat ->
+  cond_loop f allow acc lv app (st (T ++ R) cons als)
+  = Ok (rev (if app then lv :: acc else acc) ++ cs, st R (rev T ++ cons) als).
+Definition C_ors (allow : bool) (T : list token) (cs : list cond) : Prop :=
+  forallb nrb cs = true -> forall als g R cons f, nah als T = true -> nahd als R = true ->
+  hd_is c02_T_AND R = false -> hd_is c02_T_OR R = false ->
+  (forall cons', conditions_end g (st R cons' als) = Ok tt) -> (2 * length T + 3 <= f)%nat ->
+  parse_conditions f allow g (st (T ++ R) cons als) = Ok (cs, st R (rev T ++ cons) als).
+
+Ltac nah_split H :=
+  unfold nah in H; repeat first [rewrite forallb_app in H | progress cbn [forallb] in H];
+  repeat rewrite andb_true_iff in H.
+
+Lemma H_un_nonempty : forall allow T c, H_un allow T c -> T <> [].
+Proof. intros allow T c H. destruct H; destruct N; discriminate. Qed.
+
+Lemma cur_st : forall t L c a, cur (st (t :: L) c a) = Some t.
+Proof. reflexivity. Qed.
+
+Lemma parser_complete : forall allow,
+  (forall T c, H_un allow T c -> C_un allow T c) /\
+  (forall T cs, H_andtail allow T cs -> C_andtail allow T cs) /\
+  (forall T c, H_item allow T c -> C_item allow T c) /\
+  (forall T cs, H_ortail allow T cs -> C_ortail allow T cs) /\
+  (forall T cs, H_ors allow T cs -> C_ors allow T cs).
+Proof.
+  apply H_mutind.
+  - (* identifier *)
+    intros allow neg N t HN Ht. red. intros Hnr als R cons f Hna HR Hf.
+    destruct f as [|f]; [clear - Hf; lia|]. cbn [parse_single]. rewrite <- app_assoc.
+    nah_split Hna. destruct Hna as [HnN [Hnt _]].
+    rewrite (is_not_st neg N ([t] ++ R)); [|assumption|cbn [app hd_is]; rewrite Ht; reflexivity|cbn [app nahd]; assumption].
+    cbn [bind app]. rewrite cur_st. rewrite Ht. tyc. rewrite ?andb_false_r.
+    rewrite consume_st by assumption. cbn [bind]. lnorm. reflexivity.
+  - (* minscore *)
+    intros allow neg N m o i cm sc c HN Hm Ho Hi Hcm Hsc Hc. red. intros Hnr als R cons f Hna HR Hf.
+    destruct f as [|f]; [clear - Hf; lia|]. cbn [parse_single]. rewrite <- app_assoc.
+    nah_split Hna. destruct Hna as [HnN [Hn1 [Hn2 [Hn3 [Hn4 [Hn5 [Hn6 _]]]]]]].
+    rewrite (is_not_st neg N); [|assumption|cbn [app hd_is]; rewrite Hm; reflexivity|cbn [app nahd]; assumption].
+    cbn [bind app]. rewrite cur_st. rewrite Hm. tyc. rewrite ?andb_false_r.
+    unfold parse_score.
+    rewrite consume_st; [|assumption|cbn [nahd]; assumption]. cbn [bind].
+    rewrite consume_st; [|assumption|cbn [nahd]; assumption]. cbn [bind].
+    rewrite consume_st; [|assumption|cbn [nahd]; assumption]. cbn [bind].
+    rewrite consume_st; [|assumption|cbn [nahd]; assumption]. cbn [bind].
+    rewrite consume_st; [|assumption|cbn [nahd]; assumption]. cbn [bind].
+    rewrite consume_st; [|assumption|assumption]. cbn [bind]. lnorm. reflexivity.
+  - (* minimum *)
+    intros allow neg N m o k cm lo i Tt l lc c HN Hal Hm Ho Hk Hcm Hlo Hi HTt Hlc Hc. red.
+    intros Hnr als R cons f Hna HR Hf. subst allow.
+    destruct f as [|f]; [clear - Hf; lia|]. cbn [parse_single]. rewrite <- app_assoc.
+    nah_split Hna. destruct Hna as [HnN [Hn1 [Hn2 [Hn3 [Hn4 [Hn5 [Hn6 [Hn7 [Hn8 [Hn9 _]]]]]]]]]].
+    rewrite (is_not_st neg N); [|assumption|cbn [app hd_is]; rewrite Hm; reflexivity|cbn [app nahd]; assumption].
+    cbn [bind app]. rewrite cur_st. rewrite Hm. tyc. cbn [andb].
+    unfold parse_minimum.
+    rewrite consume_st; [|assumption|cbn [nahd]; assumption]. cbn [bind].
+    rewrite consume_st; [|assumption|cbn [nahd]; assumption]. cbn [bind].
+    rewrite consume_st; [|assumption|cbn [nahd]; assumption]. cbn [bind].
+    rewrite consume_st; [|assumption|cbn [nahd]; assumption]. cbn [bind].
+    rewrite consume_st; [|assumption|cbn [nahd]; assumption]. cbn [bind].
+    unfold parse_comma_ids.
+    rewrite <- app_assoc.
+    rewrite consume_st; [|assumption|apply nahd_app; [assumption|cbn [app nahd]; assumption]]. cbn [bind].
+    rewrite (comma_loop_complete Tt l HTt); [|assumption|cbn [app nahd]; assumption|cbn [app hd_is]; rewrite Hlc; reflexivity
+                                            |clear - Hf; lenf Hf; lia].
+    cbn [bind app rev].
+    rewrite consume_st; [|assumption|cbn [nahd]; assumption]. cbn [bind].
+    rewrite consume_st; [|assumption|assumption]. cbn [bind].
+    rewrite (nrb_min _ _ _ Hnr). cbn [bind]. lnorm. reflexivity.
+  - (* group *)
+    intros allow neg N o T cs c HN Ho Hc HT IH. red. intros Hnr als R cons f Hna HR Hf.
+    destruct (has_dup_nrb_group _ _ Hnr) as [Hmk Hall].
+    destruct f as [|f]; [clear - Hf; lia|]. cbn [parse_single]. anorm.
+    nah_split Hna. destruct Hna as [HnN [Hn1 [HnT [Hn2 _]]]].
+    rewrite (is_not_st neg N); [|assumption|cbn [app hd_is]; rewrite Ho; reflexivity|cbn [app nahd]; assumption].
+    cbn [bind app]. rewrite cur_st. rewrite Ho. tyc.
+    rewrite consume_st; [|assumption|apply nahd_app; [assumption|cbn [app nahd]; assumption]]. cbn [bind].
+    rewrite (IH Hall als true (c :: R)); [|assumption|cbn [app nahd]; assumption|cbn [app hd_is]; rewrite Hc; reflexivity
+      |cbn [app hd_is]; rewrite Hc; reflexivity
+      |intros cons'; cbn [app]; unfold conditions_end; rewrite cur_st, Hc; reflexivity
+      |clear - Hf; lenf Hf; lia].
+    cbn [bind app].
+    rewrite consume_st; [|assumption|assumption]. cbn [bind]. rewrite Hmk. cbn [bind]. lnorm. reflexivity.
+  - (* cds *)
+    intros allow neg N k o T cs c HN Hal Hk Ho Hc HT IH Hcont. red. intros Hnr als R cons f Hna HR Hf. subst allow.
+    destruct (has_dup_nrb_cds _ _ Hnr) as [Hmk Hall].
+    destruct f as [|f]; [clear - Hf; lia|]. cbn [parse_single]. anorm.
+    nah_split Hna. destruct Hna as [HnN [Hn0 [Hn1 [HnT [Hn2 _]]]]].
+    rewrite (is_not_st neg N); [|assumption|cbn [app hd_is]; rewrite Hk; reflexivity|cbn [app nahd]; assumption].
+    cbn [bind app]. rewrite cur_st. rewrite Hk. tyc. cbn [andb].
+    destruct f as [|f]; [clear - Hf; lenf Hf; lia|]. cbn [parse_cds].
+    rewrite consume_st; [|assumption|cbn [nahd]; assumption]. cbn [bind].
+    rewrite consume_st; [|assumption|apply nahd_app; [assumption|cbn [app nahd]; assumption]]. cbn [bind].
+    rewrite (IH Hall als true (c :: R)); [|assumption|cbn [app nahd]; assumption|cbn [app hd_is]; rewrite Hc; reflexivity
+      |cbn [app hd_is]; rewrite Hc; reflexivity
+      |intros cons'; cbn [app]; unfold conditions_end; rewrite cur_st, Hc; reflexivity
+      |clear - Hf; lenf Hf; lia].
+    cbn [bind app].
+    assert (Hclose : consume c02_T_GROUP_CLOSE (st (c :: R) (rev T ++ o :: k :: rev N ++ cons) als)
+                     = Ok (c, st R (c :: rev T ++ o :: k :: rev N ++ cons) als)) by (apply consume_st; assumption).
+    destruct cs as [|c1 [|c2 rest]]; [discriminate Hcont| |].
+    + cbn [cds_content] in Hcont. apply negb_true_iff in Hcont. rewrite Hcont.
+      rewrite Hclose. cbn [bind]. rewrite Hmk. cbn [bind]. lnorm. reflexivity.
+    + rewrite Hclose. cbn [bind]. rewrite Hmk. cbn [bind]. lnorm. reflexivity.
+  - (* and-tail, empty *)
+    intros allow. red. intros _ als acc R cons f _ HR Hand Hf. destruct f as [|f]; [clear - Hf; lia|].
+    cbn [and_loop app]. rewrite cur_is_st, Hand, app_nil_r. reflexivity.
+  - (* and-tail, one more operand *)
+    intros allow a T c T' cs Ha HT IHu HT' IHt. red. intros Hnr als acc R cons f Hna HR Hand Hf.
+    cbn [forallb] in Hnr. apply andb_true_iff in Hnr. destruct Hnr as [Hnc Hncs].
+    destruct f as [|f]; [clear - Hf; lia|]. cbn [and_loop app]. rewrite cur_is_st. cbn [hd_is]. rewrite Ha, Z.eqb_refl.
+    nah_split Hna. destruct Hna as [Hn1 [HnT HnT']].
+    rewrite <- app_assoc.
+    rewrite consume_st; [|assumption|apply nahd_app; [assumption|apply nahd_app; assumption]]. cbn [bind].
+    rewrite (IHu Hnc); [|assumption|apply nahd_app; assumption|clear - Hf; cbn [length] in Hf; rewrite app_length in Hf; lia].
+    cbn [bind].
+    rewrite (IHt Hncs); [|assumption|assumption|assumption|clear - Hf; cbn [length] in Hf; rewrite app_length in Hf; lia].
+    cbn [rev]. lnorm. reflexivity.
+  - (* item: a single operand *)
+    intros allow T c HT IHu. red. intros Hnr als R cons Hna HR Hand.
+    exists c, T, []. split; [rewrite app_nil_r; reflexivity|]. split; [eapply H_un_nonempty; eassumption|].
+    split; [|left; split; reflexivity].
+    intros f Hf. cbn [app]. apply (IHu Hnr); assumption.
+  - (* item: an AndCondition *)
+    intros allow T1 c1 T2 cs HT1 IHu HT2 IHt Hne. red. intros Hnr als R cons Hna HR Hand.
+    destruct (has_dup_nrb_and _ Hnr) as [Hmk Hall].
+    cbn [forallb] in Hall. apply andb_true_iff in Hall. destruct Hall as [Hnc1 Hncs].
+    nah_split Hna. destruct Hna as [HnT1 HnT2].
+    exists c1, T1, T2. split; [reflexivity|]. split; [eapply H_un_nonempty; eassumption|]. split.
+    + intros f Hf. rewrite <- app_assoc. apply (IHu Hnc1); [assumption|apply nahd_app; assumption|assumption].
+    + right.
+      assert (Hhd : hd_is c02_T_AND (T2 ++ R) = true).
+      { destruct HT2 as [|a T c T' cs' Ha _ _]; [contradiction Hne; reflexivity|].
+        cbn [app hd_is]. rewrite Ha. reflexivity. }
+      split; [assumption|]. intros f Hf. destruct f as [|f]; [clear - Hf; lia|].
+      rewrite parse_ands_as_loop by (rewrite cur_is_st; assumption).
+      rewrite (IHt Hncs); [|assumption|assumption|assumption|clear - Hf; lia].
+      cbn [bind rev app]. rewrite Hmk. cbn [bind]. lnorm. reflexivity.
+  - (* or-tail, empty *)
+    intros allow. red. intros _ als acc lv ap R cons f _ HR Hand Hor Hf. destruct f as [|f]; [clear - Hf; lia|].
+    cbn [cond_loop app]. rewrite !cur_is_st, Hand, Hor, app_nil_r. reflexivity.
+  - (* or-tail, one more item *)
+    intros allow o T c T' cs Ho HT IHi HT' IHt. red. intros Hnr als acc lvalue ap R cons f Hna HR Hand Hor Hf.
+    cbn [forallb] in Hnr. apply andb_true_iff in Hnr. destruct Hnr as [Hnc Hncs].
+    destruct f as [|f]; [clear - Hf; lia|]. cbn [cond_loop app]. rewrite !cur_is_st. cbn [hd_is]. rewrite Ho. tyc.
+    nah_split Hna. destruct Hna as [Hn1 [HnT HnT']].
+    rewrite <- app_assoc.
+    rewrite consume_st; [|assumption|apply nahd_app; [assumption|apply nahd_app; assumption]]. cbn [bind].
+    assert (HandT' : hd_is c02_T_AND (T' ++ R) = false).
+    { destruct HT' as [|o' Tx cx Ty cy Ho' _ _]; [assumption|]. cbn [app hd_is]. rewrite Ho'. reflexivity. }
+    destruct (IHi Hnc als (T' ++ R) (o :: cons) HnT (nahd_app _ _ _ HnT' HR) HandT')
+      as [lv [T1 [T2 [HeqT [HT1 [Hps Hcase]]]]]].
+    cbn [length] in Hf. rewrite app_length in Hf. subst T. rewrite app_length in Hf.
+    rewrite Hps by (clear - Hf; lia). cbn [bind].
+    destruct Hcase as [[HT2 Hc]|[Hhd Hands]].
+    + subst T2 c. cbn [app].
+      rewrite (IHt Hncs); [|assumption|assumption|assumption|assumption|clear - Hf; lia].
+      cbn [rev]. rewrite app_nil_r. lnorm. reflexivity.
+    + destruct f as [|f]; [clear - Hf; lia|]. cbn [cond_loop]. rewrite cur_is_st, Hhd.
+      rewrite Hands by (clear - Hf; lia). cbn [bind].
+      rewrite (IHt Hncs); [|assumption|assumption|assumption|assumption|clear - Hf; lia].
+      cbn [rev]. lnorm. reflexivity.
+  - (* ors *)
+    intros allow T c T' cs HT IHi HT' IHt. red. intros Hnr als g R cons f Hna HR Hand Hor Hend Hf.
+    cbn [forallb] in Hnr. apply andb_true_iff in Hnr. destruct Hnr as [Hnc Hncs].
+    nah_split Hna. destruct Hna as [HnT HnT'].
+    assert (HandT' : hd_is c02_T_AND (T' ++ R) = false).
+    { destruct HT' as [|o' Tx cx Ty cy Ho' _ _]; [assumption|]. cbn [app hd_is]. rewrite Ho'. reflexivity. }
+    destruct (IHi Hnc als (T' ++ R) cons HnT (nahd_app _ _ _ HnT' HR) HandT')
+      as [lv [T1 [T2 [HeqT [HT1 [Hps Hcase]]]]]].
+    rewrite app_length in Hf. subst T. rewrite app_length in Hf.
+    destruct f as [|f]; [clear - Hf; lia|]. rewrite <- app_assoc.
+    destruct T1 as [|t1 T1']; [contradiction HT1; reflexivity|].
+    rewrite pc_unfold by (cbn; discriminate).
+    rewrite Hps by (clear - Hf; lia). cbn [bind].
+    destruct Hcase as [[HT2 Hc]|[Hhd Hands]].
+    + subst T2 c. cbn [app].
+      rewrite (IHt Hncs); [|assumption|assumption|assumption|assumption|clear - Hf; cbn [length] in Hf; lia].
+      cbn [bind]. rewrite Hend. cbn [bind rev app]. rewrite app_nil_r. lnorm. reflexivity.
+    + destruct f as [|f]; [clear - Hf; lia|]. cbn [cond_loop]. rewrite cur_is_st, Hhd.
+      rewrite Hands by (clear - Hf; lia). cbn [bind].
+      rewrite (IHt Hncs); [|assumption|assumption|assumption|assumption|clear - Hf; cbn [length] in Hf; lia].
+      cbn [bind]. rewrite Hend. cbn [bind rev app]. lnorm. reflexivity.
+Qed.
+
+(* ====================================================================== *)
+(* I. round trip of the condition text                                     *)
+(* ====================================================================== *)
+
+(* --- I1. str(n) and int(text) --- *)
+Definition dstep (a c : Z) : Z := a * 10 + (c - 48).
+Lemma int_of_fold : forall s, int_of s = fold_left dstep s 0.
+Proof. reflexivity. Qed.
+
+Lemma dec_digits_S : forall f n acc, dec_digits (S f) n acc =
+  if n <? 10 then (48 + n mod 10) :: acc else dec_digits f (n / 10) ((48 + n mod 10) :: acc).
+Proof. intros. cbn [dec_digits]. destruct (n <? 10); reflexivity. Qed.
+
+Lemma dec_digits_spec : forall f n acc, 0 <= n < 2 ^ Z.of_nat (S f) ->
+  fold_left dstep (dec_digits (S f) n acc) 0 = fold_left dstep acc n /\
+  exists ds, ds <> [] /\ forallb is_digit ds = true /\ dec_digits (S f) n acc = ds ++ acc.
+Proof.
+  induction f as [|f IH]; intros n acc Hn.
+  - assert (Hlt : (n <? 10) = true) by (change (2 ^ Z.of_nat 1) with 2 in Hn; lia).
+    rewrite dec_digits_S. rewrite Hlt. split.
+    + cbn [fold_left]. unfold dstep at 2. rewrite Z.mod_small by lia. f_equal. lia.
+    + exists [48 + n mod 10]. split; [discriminate|]. split; [|reflexivity].
+      cbn [forallb]. rewrite Z.mod_small by lia. unfold is_digit. lia.
+  - rewrite (dec_digits_S (S f)). destruct (n <? 10) eqn:Hlt.
+    + split.
+      * cbn [fold_left]. unfold dstep at 2. rewrite Z.mod_small by lia. f_equal. lia.
+      * exists [48 + n mod 10]. split; [discriminate|]. split; [|reflexivity].
+        cbn [forallb]. rewrite Z.mod_small by lia. unfold is_digit. lia.
+    + assert (Hd : 0 <= n / 10 < 2 ^ Z.of_nat (S f)).
+      { split; [apply Z.div_pos; lia|]. apply Z.div_lt_upper_bound; [lia|].
+        rewrite (Nat2Z.inj_succ (S f)), Z.pow_succ_r in Hn by lia.
+        assert (0 < 2 ^ Z.of_nat (S f)) by (apply Z.pow_pos_nonneg; lia). lia. }
+      destruct (IH (n / 10) ((48 + n mod 10) :: acc) Hd) as [H1 [ds [Hne [Hdig Heq]]]]. split.
+      * rewrite H1. cbn [fold_left]. unfold dstep at 2. f_equal.
+        pose proof (Z.div_mod n 10 ltac:(lia)). lia.
+      * exists (ds ++ [48 + n mod 10]). split; [destruct ds; discriminate|]. split.
+        -- rewrite forallb_app, Hdig. cbn [forallb andb]. pose proof (Z.mod_pos_bound n 10 ltac:(lia)).
+           unfold is_digit. lia.
+        -- rewrite Heq, <- app_assoc. reflexivity.
+Qed.
+
+Lemma show_Z_nonneg : forall n, 0 <= n ->
+  int_of (show_Z n) = n /\ all_digits (show_Z n) = true.
+Proof.
+  intros n Hn. unfold show_Z. assert (E : (n <? 0) = false) by lia. rewrite E.
+  assert (Hb : 0 <= n < 2 ^ Z.of_nat (S (Z.to_nat (Z.log2 n)))).
+  { split; [assumption|]. rewrite Nat2Z.inj_succ, Z2Nat.id by apply Z.log2_nonneg.
+    destruct (Z.eq_dec n 0) as [->|Hz]; [reflexivity|]. apply Z.log2_spec. lia. }
+  destruct (dec_digits_spec _ n [] Hb) as [H1 [ds [Hne [Hdig Heq]]]]. split.
+  - rewrite int_of_fold, H1. reflexivity.
+  - rewrite Heq, app_nil_r. unfold all_digits. destruct ds; [contradiction Hne; reflexivity|assumption].
+Qed.
+
+(* --- I2. character classes --- *)
+Lemma is_single_cases : forall c, is_single c = true -> c = 40 \/ c = 41 \/ c = 91 \/ c = 93 \/ c = 44 \/ c = 46.
+Proof.
+  intros c H. unfold is_single in H. apply existsb_exists in H. destruct H as [kv [Hin He]].
+  unfold c02_token_mapping in Hin. cbn [In] in Hin.
+  repeat (destruct Hin as [Hin|Hin]; [subst kv; unfold str_eqb in He; cbn [fst list_eqb] in He; try discriminate He;
+                                       try (rewrite andb_false_r in He; discriminate He);
+                                       rewrite ?andb_true_r in He; apply Z.eqb_eq in He; lia|]).
+  contradiction.
+Qed.
+
+Definition idchar (c : Z) : bool := is_alpha c || is_digit c || (c =? 95) || (c =? 45).
+
+Lemma idchar_wc : forall c, idchar c = true -> wc c = true /\ wc2 c = true.
+Proof.
+  intros c H. assert (Hs : is_single c = false).
+  { destruct (is_single c) eqn:E; [|reflexivity]. apply is_single_cases in E.
+    unfold idchar, is_alpha, is_digit in H. lia. }
+  assert (Hw : is_ws c = false) by (unfold idchar, is_alpha, is_digit in H; unfold is_ws; lia).
+  assert (Hy : is_symchar c = true) by (unfold idchar, is_alpha, is_digit in H; unfold is_symchar, is_alnum, is_alpha, is_digit; lia).
+  unfold wc, wc2. rewrite Hs, Hw, Hy. split; reflexivity.
+Qed.
+
+Lemma idchars_word : forall s, s <> [] -> forallb idchar s = true -> is_word s = true.
+Proof.
+  intros [|c0 cs] Hne H; [contradiction Hne; reflexivity|]. cbn [forallb] in H. apply andb_true_iff in H.
+  destruct H as [H0 Hcs]. cbn [is_word]. rewrite (proj1 (idchar_wc _ H0)). cbn [andb].
+  apply forallb_forall. intros x Hx. rewrite forallb_forall in Hcs. apply idchar_wc. apply Hcs. assumption.
+Qed.
+
+Definition is_id (s : str) : bool := classify s =? c02_T_IDENTIFIER.
+
+Lemma is_id_word : forall s, is_id s = true -> is_word s = true.
+Proof.
+  intros s H. unfold is_id in H. apply Z.eqb_eq in H. unfold classify in H.
+  destruct (map_get s c02_token_mapping) eqn:E.
+  - apply map_get_Some in E. subst z.
+    assert (F : forallb (fun kv => negb (snd kv =? c02_T_IDENTIFIER)) c02_token_mapping = true) by (vm_compute; reflexivity).
+    rewrite forallb_forall in F. specialize (F _ E). cbn [snd] in F. rewrite Z.eqb_refl in F. discriminate F.
+  - destruct (all_digits s); [vm_compute in H; discriminate H|].
+    destruct (is_legal_identifier s) eqn:L; [|vm_compute in H; discriminate H].
+    unfold is_legal_identifier in L.
+    destruct (existsb is_alpha s) eqn:X; [|discriminate L]. cbn [negb] in L.
+    destruct (forallb (fun c => is_alpha c || is_digit c || (c =? 95) || (c =? 45)) s) eqn:F; [|discriminate L].
+    apply idchars_word; [|exact F]. intros ->. discriminate X.
+Qed.
+
+Lemma digits_word : forall s, all_digits s = true -> is_word s = true.
+Proof.
+  intros s H. unfold all_digits in H. destruct s as [|c cs] eqn:E; [discriminate H|]. rewrite <- E in *.
+  apply idchars_word; [subst; discriminate|]. apply forallb_forall. intros x Hx. rewrite forallb_forall in H.
+  specialize (H x Hx). unfold idchar. rewrite H. rewrite orb_true_r. reflexivity.
+Qed.
+
+Lemma digits_classify : forall s, all_digits s = true -> classify s = c02_T_INT.
+Proof.
+  intros s H. unfold classify. destruct (map_get s c02_token_mapping) eqn:E.
+  - apply map_get_Some in E.
+    assert (F : forallb (fun kv => negb (all_digits (fst kv))) c02_token_mapping = true) by (vm_compute; reflexivity).
+    rewrite forallb_forall in F. specialize (F _ E). cbn [fst] in F. rewrite H in F. discriminate F.
+  - rewrite H. reflexivity.
+Qed.
+
+(* --- I3. the tokeniser on words, punctuation and spaces --- *)
+Definition term_ok (rest : str) : Prop :=
+  match rest with [] => True | c :: _ => is_ws c = true \/ is_single c = true end.
+
+Lemma flush_term : forall rest sym, term_ok rest ->
+  tok_aux rest sym false = pre (flush sym) (tok_aux rest [] false).
+Proof.
+  intros [|c r] sym H.
+  - cbn [tok_aux flush pre]. rewrite app_nil_r. reflexivity.
+  - cbn [term_ok] in H. cbn [tok_aux]. destruct (is_ws c) eqn:W.
+    + cbn [flush]. rewrite pre_nil. reflexivity.
+    + destruct H as [H|H]; [discriminate H|]. rewrite H. cbn [flush app]. rewrite pre_pre. reflexivity.
+Qed.
+
+Lemma word_lex : forall w rest, is_word w = true -> term_ok rest ->
+  tok_aux (w ++ rest) [] false = pre [w] (tok_aux rest [] false).
+Proof.
+  intros [|c0 cs] rest Hw Ht; [discriminate Hw|]. cbn [is_word] in Hw. apply andb_true_iff in Hw.
+  destruct Hw as [H0 Hcs]. unfold wc in H0. apply andb_true_iff in H0. destruct H0 as [H0 H03].
+  apply andb_true_iff in H0. destruct H0 as [H01 H02]. apply negb_true_iff in H01. apply negb_true_iff in H02.
+  cbn [app tok_aux]. rewrite H01, H02, H03.
+  rewrite word_tail; [|discriminate|assumption]. rewrite flush_term by assumption.
+  rewrite flush_word. reflexivity.
+Qed.
+
+Lemma punct_lex : forall c rest, is_ws c = false -> is_single c = true ->
+  tok_aux (c :: rest) [] false = pre [[c]] (tok_aux rest [] false).
+Proof. intros c rest H1 H2. cbn [tok_aux]. rewrite H1, H2. reflexivity. Qed.
+
+Lemma space_lex : forall rest, tok_aux (32 :: rest) [] false = tok_aux rest [] false.
+Proof. intros rest. cbn [tok_aux]. replace (is_ws 32) with true by reflexivity. cbn [flush]. apply pre_nil. Qed.
+
+(* --- I4. the tokens of a printed condition --- *)
+Fixpoint ljoin (sep : str) (l : list (list str)) : list str :=
+  match l with
+  | [] => []
+  | [x] => x
+  | x :: r => x ++ sep :: ljoin sep r
+  end.
+Definition lt_neg (n : bool) : list str := if n then [codes "not"] else [].
+Fixpoint lt (c : cond) : list str :=
+  match c with
+  | CSingle n a => lt_neg n ++ [a]
+  | CScore n a s => lt_neg n ++ [codes "minscore"; codes "("; a; codes ","; show_Z s; codes ")"]
+  | CMin n k opts => lt_neg n ++ [codes "minimum"; codes "("; show_Z k; codes ","; codes "["]
+                     ++ ljoin (codes ",") (map (fun o => [o]) (sorted_set opts)) ++ [codes "]"; codes ")"]
+  | CCds n subs => lt_neg n ++ [codes "cds"; codes "("] ++ ljoin (codes "or") (map lt subs) ++ [codes ")"]
+  | CGroup n subs =>
+    match subs with
+    | [sub] => if is_and sub then lt_neg n ++ codes "(" :: lt sub ++ [codes ")"]
+               else if n && starts_with s_not (show sub) then lt_neg n ++ codes "(" :: lt sub ++ [codes ")"]
+               else lt_neg n ++ lt sub
+    | _ => lt_neg n ++ codes "(" :: ljoin (codes "or") (map lt subs) ++ [codes ")"]
+    end
+  | CAnd ops => ljoin (codes "and") (map lt ops)
+  end.
+
+(* names are identifiers, numbers are not negative *)
+Fixpoint lexable (c : cond) : bool :=
+  match c with
+  | CSingle _ a => is_id a
+  | CScore _ a s => is_id a && (0 <=? s)
+  | CMin _ k opts => (0 <=? k) && forallb is_id opts
+  | CCds _ subs | CGroup _ subs => forallb lexable subs
+  | CAnd ops => forallb lexable ops
+  end.
+
+Definition lexes (x : cond) : Prop := forall rest, term_ok rest ->
+  tok_aux (show x ++ rest) [] false = pre (lt x) (tok_aux rest [] false).
+
+Ltac pnorm := rewrite ?pre_pre; rewrite <- ?app_assoc; cbn [app].
+Ltac tk_r := right; reflexivity.
+Ltac tk_l := left; reflexivity.
+
+Lemma lex_prefix : forall n Y, tok_aux (prefix n ++ Y) [] false = pre (lt_neg n) (tok_aux Y [] false).
+Proof.
+  intros [|] Y; cbn [prefix lt_neg].
+  - change s_not with (codes "not" ++ [32]). anorm.
+    rewrite word_lex; [|reflexivity|tk_l]. rewrite space_lex. reflexivity.
+  - cbn [app]. rewrite pre_nil. reflexivity.
+Qed.
+
+Lemma lex_join : forall kw, is_word kw = true -> forall l : list cond, Forall lexes l ->
+  forall rest, term_ok rest ->
+  tok_aux (join (32 :: kw ++ [32]) (map show l) ++ rest) [] false
+  = pre (ljoin kw (map lt l)) (tok_aux rest [] false).
+Proof.
+  intros kw Hkw. induction l as [|x l IH]; intros HF rest Hr.
+  - cbn [map join ljoin app]. rewrite pre_nil. reflexivity.
+  - inversion HF as [|x' l' Hx Hl]; subst. destruct l as [|y r].
+    + cbn [map join ljoin]. apply Hx. assumption.
+    + change (join (32 :: kw ++ [32]) (map show (x :: y :: r)))
+        with (show x ++ (32 :: kw ++ [32]) ++ join (32 :: kw ++ [32]) (map show (y :: r))).
+      change (ljoin kw (map lt (x :: y :: r))) with (lt x ++ kw :: ljoin kw (map lt (y :: r))).
+      anorm. rewrite Hx by tk_l. rewrite space_lex. rewrite word_lex; [|assumption|tk_l]. rewrite space_lex.
+      rewrite (IH Hl) by assumption. pnorm. reflexivity.
+Qed.
+
+Lemma lex_ids : forall l, forallb is_id l = true -> forall rest, term_ok rest ->
+  tok_aux (join (codes ", ") l ++ rest) [] false
+  = pre (ljoin (codes ",") (map (fun o => [o]) l)) (tok_aux rest [] false).
+Proof.
+  induction l as [|x l IH]; intros HF rest Hr.
+  - cbn [map join ljoin app]. rewrite pre_nil. reflexivity.
+  - cbn [forallb] in HF. apply andb_true_iff in HF. destruct HF as [Hx Hl]. destruct l as [|y r].
+    + cbn [map join ljoin]. apply word_lex; [apply is_id_word; assumption|assumption].
+    + change (join (codes ", ") (x :: y :: r)) with (x ++ [44; 32] ++ join (codes ", ") (y :: r)).
+      change (ljoin (codes ",") (map (fun o => [o]) (x :: y :: r)))
+        with ([x] ++ codes "," :: ljoin (codes ",") (map (fun o => [o]) (y :: r))).
+      anorm. rewrite word_lex; [|apply is_id_word; assumption|tk_r].
+      rewrite punct_lex by reflexivity. rewrite space_lex. rewrite (IH Hl) by assumption. pnorm. reflexivity.
+Qed.
+
+Lemma sorted_set_forallb : forall p l, forallb p l = true -> forallb p (sorted_set l) = true.
+Proof.
+  intros p l H. rewrite forallb_forall in *. intros x Hx. apply H. apply sorted_set_In. assumption.
+Qed.
+
+Lemma lex_show : forall c, lexable c = true -> lexes c.
+Proof.
+  induction c using cond_ind_nested; intros Hl rest Hr; cbn [lexable] in Hl.
+  - (* CSingle *)
+    cbn [show lt]. anorm. rewrite lex_prefix. rewrite word_lex; [|apply is_id_word; assumption|assumption].
+    pnorm. reflexivity.
+  - (* CScore *)
+    apply andb_true_iff in Hl. destruct Hl as [Hid Hs]. destruct (show_Z_nonneg s ltac:(lia)) as [_ Hdig].
+    cbn [show lt]. change (codes "minscore(") with (codes "minscore" ++ [40]). change (codes ", ") with [44; 32].
+    change (codes ")") with [41]. anorm. rewrite lex_prefix.
+    rewrite word_lex; [|reflexivity|tk_r]. rewrite punct_lex by reflexivity.
+    rewrite word_lex; [|apply is_id_word; assumption|tk_r]. rewrite punct_lex by reflexivity. rewrite space_lex.
+    rewrite word_lex; [|apply digits_word; assumption|tk_r]. rewrite punct_lex by reflexivity.
+    pnorm. reflexivity.
+  - (* CMin *)
+    apply andb_true_iff in Hl. destruct Hl as [Hk Hids]. destruct (show_Z_nonneg k ltac:(lia)) as [_ Hdig].
+    cbn [show lt]. change (codes "minimum(") with (codes "minimum" ++ [40]). change (codes ", [") with [44; 32; 91].
+    change (codes "])") with [93; 41]. anorm. rewrite lex_prefix.
+    rewrite word_lex; [|reflexivity|tk_r]. rewrite punct_lex by reflexivity.
+    rewrite word_lex; [|apply digits_word; assumption|tk_r]. rewrite punct_lex by reflexivity. rewrite space_lex.
+    rewrite punct_lex by reflexivity.
+    rewrite lex_ids; [|apply sorted_set_forallb; assumption|tk_r].
+    rewrite punct_lex by reflexivity. rewrite punct_lex by reflexivity.
+    pnorm. reflexivity.
+  - (* CCds *)
+    assert (HF : Forall lexes subs).
+    { rewrite forallb_forall in Hl. rewrite Forall_forall in *. intros x Hx. apply H; [assumption|apply Hl; assumption]. }
+    cbn [show lt]. change (codes "cds(") with (codes "cds" ++ [40]). change (codes ")") with [41].
+    change s_or_sep with (32 :: codes "or" ++ [32]). anorm. rewrite lex_prefix.
+    rewrite word_lex; [|reflexivity|tk_r]. rewrite punct_lex by reflexivity.
+    rewrite (lex_join (codes "or")); [|reflexivity|assumption|tk_r]. rewrite punct_lex by reflexivity.
+    pnorm. reflexivity.
+  - (* CGroup *)
+    assert (HF : Forall lexes subs).
+    { rewrite forallb_forall in Hl. rewrite Forall_forall in *. intros x Hx. apply H; [assumption|apply Hl; assumption]. }
+    assert (Par : forall body toks, (forall rest', term_ok rest' -> tok_aux (body ++ rest') [] false = pre toks (tok_aux rest' [] false)) ->
+              tok_aux ((prefix n ++ codes "(" ++ body ++ codes ")") ++ rest) [] false
+              = pre (lt_neg n ++ codes "(" :: toks ++ [codes ")"]) (tok_aux rest [] false)).
+    { intros body toks Hb. change (codes "(") with [40]. change (codes ")") with [41]. anorm. rewrite lex_prefix.
+      rewrite punct_lex by reflexivity. rewrite Hb by tk_r. rewrite punct_lex by reflexivity. pnorm. reflexivity. }
+    assert (Join : forall rest', term_ok rest' ->
+              tok_aux (join s_or_sep (map show subs) ++ rest') [] false
+              = pre (ljoin (codes "or") (map lt subs)) (tok_aux rest' [] false)).
+    { intros rest' Hr'. change s_or_sep with (32 :: codes "or" ++ [32]). apply lex_join; [reflexivity|assumption|assumption]. }
+    cbn [show lt]. destruct subs as [|sub [|sub2 r]]; [apply Par; exact Join| |apply Par; exact Join].
+    inversion HF as [|x l Hsub _]; subst.
+    destruct (is_and sub); [apply Par; exact Hsub|].
+    destruct (n && starts_with s_not (show sub)); [apply Par; exact Hsub|].
+    anorm. rewrite lex_prefix. rewrite Hsub by assumption. pnorm. reflexivity.
+  - (* CAnd *)
+    assert (HF : Forall lexes ops).
+    { rewrite forallb_forall in Hl. rewrite Forall_forall in *. intros x Hx. apply H; [assumption|apply Hl; assumption]. }
+    cbn [show lt]. change s_and_sep with (32 :: codes "and" ++ [32]). apply lex_join; [reflexivity|assumption|assumption].
+Qed.
+
+Lemma tokenise_show : forall c, lexable c = true -> tokenise (show c) = Ok (lt c).
+Proof.
+  intros c H. unfold tokenise. rewrite <- (app_nil_r (show c)). rewrite (lex_show c H [] I).
+  cbn [tok_aux flush pre]. rewrite app_nil_r. reflexivity.
+Qed.
+
+(* --- I5. what the printed text reads back as --- *)
+Lemma NoDup_has_dup : forall l, NoDup l -> has_dup l = false.
+Proof.
+  induction l as [|x xs IH]; intros H; [reflexivity|]. inversion H; subst. cbn [has_dup].
+  rewrite IH by assumption. rewrite orb_false_r. apply smem_false. assumption.
+Qed.
+
+Lemma dedupe_acc_id : forall l seen, NoDup l -> (forall x, In x l -> ~ In x seen) -> dedupe_acc seen l = l.
+Proof.
+  induction l as [|x xs IH]; intros seen Hd Hs; [reflexivity|]. inversion Hd; subst. cbn [dedupe_acc].
+  assert (E : smem x seen = false) by (apply smem_false; apply Hs; left; reflexivity). rewrite E. f_equal.
+  apply IH; [assumption|]. intros y Hy [C|C]; [subst; contradiction|]. apply (Hs y); [right; assumption|assumption].
+Qed.
+
+Lemma insert_by_end : forall x acc, Forall (fun y => str_ltb x y = false) acc -> insert_by str_ltb x acc = acc ++ [x].
+Proof.
+  induction acc as [|y ys IH]; intros H; [reflexivity|]. inversion H; subst. cbn [insert_by app].
+  match goal with E : str_ltb x y = false |- _ => rewrite E end. f_equal. apply IH. assumption.
+Qed.
+
+Lemma ss_app_inv : forall (a : list str) x b, StronglySorted str_le (a ++ x :: b) -> Forall (fun y => str_le y x) a.
+Proof.
+  induction a as [|y a IH]; intros x b H; [constructor|]. cbn [app] in H. inversion H as [|y' l' Hs Hall]; subst.
+  constructor; [|eapply IH; eassumption]. rewrite Forall_forall in Hall. apply Hall. apply in_elt.
+Qed.
+
+Lemma fold_insert_sorted : forall l acc, StronglySorted str_le (acc ++ l) ->
+  fold_left (fun acc y => insert_by str_ltb y acc) l acc = acc ++ l.
+Proof.
+  induction l as [|x xs IH]; intros acc H; [cbn [fold_left]; rewrite app_nil_r; reflexivity|].
+  cbn [fold_left]. rewrite insert_by_end by (eapply ss_app_inv; eassumption).
+  rewrite IH; rewrite <- app_assoc; [reflexivity|assumption].
+Qed.
+
+Lemma sorted_set_idem : forall l, sorted_set (sorted_set l) = sorted_set l.
+Proof.
+  intros l. unfold sorted_set at 1. unfold dedupe.
+  rewrite dedupe_acc_id; [|apply sorted_set_NoDup|intros x _ []].
+  unfold sort_by. rewrite fold_insert_sorted; [reflexivity|]. cbn [app]. unfold sorted_set. apply sort_by_sorted.
+Qed.
+
+Definition cneg (c : cond) : bool :=
+  match c with CSingle n _ | CScore n _ _ | CMin n _ _ | CCds n _ | CGroup n _ => n | CAnd _ => false end.
+Definition negate (c : cond) : cond :=
+  match c with
+  | CSingle _ a => CSingle true a | CScore _ a s => CScore true a s | CMin _ k o => CMin true k o
+  | CCds _ s => CCds true s | CGroup _ s => CGroup true s | CAnd o => CAnd o
+  end.
+
+(* the tree that the printed text denotes: a one-member group that is printed without parentheses is its
+   member (negated once more if the group is negated); the options of minimum() come back sorted *)
+Fixpoint norm (c : cond) : cond :=
+  match c with
+  | CSingle n a => CSingle n a
+  | CScore n a s => CScore n a s
+  | CMin n k opts => CMin n k (sorted_set opts)
+  | CCds n subs => CCds n (map norm subs)
+  | CGroup n subs =>
+    match subs with
+    | [sub] => if is_and sub then CGroup n [norm sub]
+               else if n && starts_with s_not (show sub) then CGroup n [norm sub]
+               else if n then negate (norm sub) else norm sub
+    | _ => CGroup n (map norm subs)
+    end
+  | CAnd ops => CAnd (map norm ops)
+  end.
+
+Definition is_nil {A} (l : list A) : bool := match l with [] => true | _ => false end.
+(* the shapes the parser builds: operands of an AndCondition are not AndConditions and there are at least two,
+   groups are not empty, cds/minimum only outside cds *)
+Fixpoint shape (allow : bool) (c : cond) : bool :=
+  match c with
+  | CSingle _ _ | CScore _ _ _ => true
+  | CMin _ _ opts => allow && negb (is_nil opts)
+  | CCds _ subs => allow && negb (is_nil subs) && forallb (shape false) subs
+  | CGroup _ subs => negb (is_nil subs) && forallb (shape allow) subs
+  | CAnd ops => match ops with _ :: _ :: _ => true | _ => false end
+                && forallb (fun o => negb (is_and o) && shape allow o) ops
+  end.
+(* guard of the round trip (finding cds_single_wrapped): the only member of a cds() does not print as a bare,
+   possibly negated, identifier *)
+Fixpoint cds_ok (c : cond) : bool :=
+  match c with
+  | CCds _ subs => cds_content (map norm subs) && forallb cds_ok subs
+  | CGroup _ subs => forallb cds_ok subs
+  | CAnd ops => forallb cds_ok ops
+  | _ => true
+  end.
+
+Definition nf_top (x : cond) : bool :=
+  match x with CGroup n [y] => is_and y || (n && starts_with s_not (show y)) | _ => true end.
+
+Lemma is_and_negate : forall x, is_and (negate x) = is_and x.
+Proof. intros []; reflexivity. Qed.
+
+Lemma norm_is_and : forall c, is_and (norm c) = is_and c.
+Proof.
+  induction c using cond_ind_nested; try reflexivity.
+  cbn [norm]. destruct subs as [|sub [|s2 r]]; try reflexivity.
+  inversion H as [|x l Hs _]; subst. destruct (is_and sub) eqn:E; [reflexivity|].
+  destruct (n && starts_with s_not (show sub)); [reflexivity|].
+  destruct n; [rewrite is_and_negate|]; rewrite Hs; reflexivity.
+Qed.
+
+Lemma cneg_negate : forall x, is_and x = false -> cneg (negate x) = true.
+Proof. intros []; intros H; try reflexivity. discriminate H. Qed.
+
+Lemma is_id_name_ok : forall a, is_id a = true -> name_ok a = true.
+Proof. intros a H. apply identifier_name_ok. apply Z.eqb_eq. exact H. Qed.
+
+Lemma sw_prefix : forall n r, mismatch s_not r = true -> starts_with s_not (prefix n ++ r) = n.
+Proof.
+  intros [|] r H; cbn [prefix].
+  - apply starts_with_self_app.
+  - cbn [app]. rewrite <- (app_nil_r r). apply mismatch_app. assumption.
+Qed.
+
+(* the text starts with "not " exactly when the tree read back is negated *)
+Lemma sw_norm : forall c, lexable c = true -> is_and c = false -> starts_with s_not (show c) = cneg (norm c).
+Proof.
+  induction c using cond_ind_nested; intros Hl Ha; cbn [lexable] in Hl.
+  - cbn [show norm cneg]. destruct n; cbn [prefix].
+    + apply starts_with_self_app.
+    + cbn [app]. rewrite <- (app_nil_r name). apply name_tail; [apply is_id_name_ok; assumption|exact I].
+  - cbn [show norm cneg]. apply (sw_prefix n (codes "minscore(" ++ _)). reflexivity.
+  - cbn [show norm cneg]. apply (sw_prefix n (codes "minimum(" ++ _)). reflexivity.
+  - cbn [show norm cneg]. apply (sw_prefix n (codes "cds(" ++ _)). reflexivity.
+  - assert (Par : forall r, starts_with s_not (prefix n ++ codes "(" ++ r) = n)
+      by (intros r; apply (sw_prefix n (codes "(" ++ r)); reflexivity).
+    cbn [show norm]. destruct subs as [|sub [|s2 r]]; [apply Par| |apply Par].
+    inversion H as [|x l Hs _]; subst. cbn [forallb] in Hl. rewrite andb_true_r in Hl.
+    destruct (is_and sub) eqn:E; [apply Par|].
+    destruct (n && starts_with s_not (show sub)) eqn:E2; [apply Par|].
+    destruct n; cbn [prefix].
+    + rewrite starts_with_self_app. symmetry. apply cneg_negate. rewrite norm_is_and. assumption.
+    + cbn [app]. apply Hs; assumption.
+  - discriminate Ha.
+Qed.
+
+Lemma nf_top_negate : forall x, nf_top x = true -> nf_top (negate x) = true.
+Proof.
+  intros [] H; try reflexivity. cbn [negate nf_top] in *. destruct subs as [|y [|z r]]; try reflexivity.
+  destruct (is_and y); [reflexivity|]. cbn [orb andb] in *. destruct neg; [assumption|discriminate H].
+Qed.
+
+Lemma show_negate : forall x, is_and x = false -> cneg x = false -> nf_top x = true ->
+  show (negate x) = s_not ++ show x.
+Proof.
+  intros [] Ha Hc Hn; cbn [cneg] in Hc; subst; try reflexivity; [|discriminate Ha].
+  cbn [negate show nf_top] in *. destruct subs as [|y [|z r]]; try reflexivity.
+  rewrite andb_false_l, orb_false_r in Hn. rewrite Hn. reflexivity.
+Qed.
+
+Lemma map_ext_Forall : forall {A B} (f g : A -> B) l, Forall (fun x => f x = g x) l -> map f l = map g l.
+Proof. induction 1; [reflexivity|]. cbn [map]. congruence. Qed.
+
+(* printing the tree read back gives the same text again *)
+Lemma show_norm : forall c, lexable c = true -> show (norm c) = show c /\ nf_top (norm c) = true.
+Proof.
+  induction c using cond_ind_nested; intros Hl; cbn [lexable] in Hl; try (split; reflexivity).
+  - split; [|reflexivity]. cbn [norm show]. rewrite sorted_set_idem. reflexivity.
+  - split; [|reflexivity]. cbn [norm show]. rewrite map_map.
+    rewrite (map_ext_Forall (fun x => show (norm x)) show subs); [reflexivity|].
+    rewrite forallb_forall in Hl. rewrite Forall_forall in *. intros x Hx. apply H; [assumption|apply Hl; assumption].
+  - assert (HM : map show (map norm subs) = map show subs).
+    { rewrite map_map. apply map_ext_Forall. rewrite forallb_forall in Hl. rewrite Forall_forall in *.
+      intros x Hx. apply H; [assumption|apply Hl; assumption]. }
+    cbn [norm]. destruct subs as [|sub [|s2 r]].
+    + split; reflexivity.
+    + inversion H as [|x l Hs _]; subst. cbn [forallb] in Hl. rewrite andb_true_r in Hl.
+      destruct (Hs Hl) as [Hshow Hnf].
+      destruct (is_and sub) eqn:E.
+      * cbn [show nf_top]. rewrite norm_is_and, E, Hshow. split; reflexivity.
+      * destruct (n && starts_with s_not (show sub)) eqn:E2.
+        -- cbn [show nf_top]. rewrite norm_is_and, E, Hshow, E2. split; reflexivity.
+        -- destruct n.
+           ++ cbn [andb] in E2. split; [|apply nf_top_negate; assumption].
+              rewrite show_negate; [rewrite Hshow; cbn [show]; rewrite E; cbn [andb]; rewrite E2; reflexivity|rewrite norm_is_and; assumption| |assumption].
+              rewrite <- sw_norm; assumption.
+           ++ split; [rewrite Hshow; cbn [show]; rewrite E; reflexivity|assumption].
+    + split; [|reflexivity]. cbn [show]. cbn [map] in HM |- *. rewrite HM. reflexivity.
+  - split; [|reflexivity]. cbn [norm show]. rewrite map_map.
+    rewrite (map_ext_Forall (fun x => show (norm x)) show ops); [reflexivity|].
+    rewrite forallb_forall in Hl. rewrite Forall_forall in *. intros x Hx. apply H; [assumption|apply Hl; assumption].
+Qed.
+
+Lemma nrb_negate : forall x, nrb (negate x) = nrb x.
+Proof. intros []; reflexivity. Qed.
+
+Lemma nrb_list_norm : forall subs,
+  Forall (fun c => lexable c = true -> nrb c = true -> nrb (norm c) = true) subs ->
+  forallb lexable subs = true -> negb (has_dup (map show subs)) && forallb nrb subs = true ->
+  negb (has_dup (map show (map norm subs))) && forallb nrb (map norm subs) = true.
+Proof.
+  intros subs HF Hl H. apply andb_true_iff in H. destruct H as [H1 H2].
+  assert (HM : map show (map norm subs) = map show subs).
+  { rewrite map_map. apply map_ext_Forall. rewrite forallb_forall in Hl. rewrite Forall_forall. intros x Hx.
+    apply show_norm. apply Hl. assumption. }
+  rewrite HM, H1. cbn [andb]. rewrite forallb_forall in *. rewrite Forall_forall in HF.
+  intros y Hy. apply in_map_iff in Hy. destruct Hy as [x [<- Hx]]. apply HF; auto.
+Qed.
+
+Lemma nrb_norm : forall c, lexable c = true -> nrb c = true -> nrb (norm c) = true.
+Proof.
+  induction c using cond_ind_nested; intros Hl Hn; cbn [lexable] in Hl; try reflexivity.
+  - cbn [norm nrb] in *. apply andb_true_iff in Hn. destruct Hn as [_ Hk]. rewrite Hk.
+    rewrite NoDup_has_dup by apply sorted_set_NoDup. reflexivity.
+  - cbn [norm nrb] in *. apply nrb_list_norm; assumption.
+  - cbn [norm]. destruct subs as [|sub [|s2 r]]; [reflexivity| |cbn [nrb] in *; apply nrb_list_norm; assumption].
+    inversion H as [|x l Hs _]; subst. cbn [forallb] in Hl. rewrite andb_true_r in Hl.
+    cbn [nrb map forallb] in Hn. apply andb_true_iff in Hn. destruct Hn as [_ Hn]. rewrite andb_true_r in Hn.
+    specialize (Hs Hl Hn).
+    destruct (is_and sub); [cbn [nrb map forallb has_dup smem existsb orb negb andb]; rewrite Hs; reflexivity|].
+    destruct (n && starts_with s_not (show sub)); [cbn [nrb map forallb has_dup smem existsb orb negb andb]; rewrite Hs; reflexivity|].
+    destruct n; [rewrite nrb_negate|]; assumption.
+  - cbn [norm nrb] in *. apply nrb_list_norm; assumption.
+Qed.
+
+(* --- I6. the printed tokens are a sentence of the grammar, with reading norm c --- *)
+Definition tk (c : cond) : list token := map mk_token (lt c).
+Definition tkn (n : bool) : list token := map mk_token (lt_neg n).
+
+Lemma notp_tkn : forall n, notp n (tkn n).
+Proof. intros [|]; cbn [notp tkn lt_neg map]; [eexists; split; reflexivity|reflexivity]. Qed.
+
+Lemma H_un_negate : forall allow T x nt, H_un allow T x -> cneg x = false -> ttype nt = c02_T_NOT ->
+  H_un allow (nt :: T) (negate x).
+Proof.
+  intros allow T x nt H Hc Hnt.
+  assert (HN : notp true [nt]) by (exists nt; split; [reflexivity|assumption]).
+  destruct H; cbn [cneg] in Hc; subst neg;
+    match goal with Hn : notp false _ |- _ => cbn [notp] in Hn; subst end; cbn [app negate].
+  - apply (HU_id allow true [nt]); assumption.
+  - apply (HU_score allow true [nt]); assumption.
+  - apply (HU_min _ true [nt]); try assumption; reflexivity.
+  - apply (HU_grp allow true [nt]); assumption.
+  - apply (HU_cds _ true [nt]); try assumption; reflexivity.
+Qed.
+
+Lemma tk_ljoin : forall sep r x,
+  map mk_token (ljoin sep (lt x :: map lt r)) = tk x ++ flat_map (fun y => mk_token sep :: tk y) r.
+Proof.
+  intros sep. induction r as [|y r IH]; intros x.
+  - cbn [map ljoin flat_map]. rewrite app_nil_r. reflexivity.
+  - cbn [map]. change (ljoin sep (lt x :: lt y :: map lt r)) with (lt x ++ sep :: ljoin sep (lt y :: map lt r)).
+    rewrite map_app. cbn [map]. rewrite IH. reflexivity.
+Qed.
+
+Lemma ortail_flat : forall allow r, Forall (fun x => H_item allow (tk x) (norm x)) r ->
+  H_ortail allow (flat_map (fun y => mk_token (codes "or") :: tk y) r) (map norm r).
+Proof.
+  induction 1 as [|y r Hy _ IH]; [constructor|]. cbn [flat_map map app].
+  apply HO_cons; [reflexivity|assumption|assumption].
+Qed.
+
+Lemma andtail_flat : forall allow r, Forall (fun x => H_un allow (tk x) (norm x)) r ->
+  H_andtail allow (flat_map (fun y => mk_token (codes "and") :: tk y) r) (map norm r).
+Proof.
+  induction 1 as [|y r Hy _ IH]; [constructor|]. cbn [flat_map map app].
+  apply HA_cons; [reflexivity|assumption|assumption].
+Qed.
+
+Lemma ors_ljoin : forall allow subs, subs <> [] -> Forall (fun x => H_item allow (tk x) (norm x)) subs ->
+  H_ors allow (map mk_token (ljoin (codes "or") (map lt subs))) (map norm subs).
+Proof.
+  intros allow [|x r] Hne HF; [contradiction Hne; reflexivity|]. inversion HF; subst.
+  cbn [map]. rewrite tk_ljoin. apply HO_ors; [assumption|apply ortail_flat; assumption].
+Qed.
+
+Lemma idtail_ljoin : forall l x, forallb is_id (x :: l) = true ->
+  exists Tt, map mk_token (ljoin (codes ",") (map (fun o => [o]) (x :: l))) = mk_token x :: Tt /\ H_idtail Tt l.
+Proof.
+  induction l as [|y r IH]; intros x H.
+  - exists []. split; [reflexivity|constructor].
+  - cbn [forallb] in H. apply andb_true_iff in H. destruct H as [_ H]. destruct (IH y H) as [Tt [Heq HT]].
+    exists (mk_token (codes ",") :: mk_token y :: Tt). split.
+    + change (ljoin (codes ",") (map (fun o => [o]) (x :: y :: r)))
+        with ([x] ++ codes "," :: ljoin (codes ",") (map (fun o => [o]) (y :: r))).
+      rewrite map_app. cbn [map app]. cbn [map] in Heq. rewrite Heq. reflexivity.
+    + apply (HT_cons (mk_token (codes ",")) (mk_token y)); [reflexivity| |assumption].
+      cbn [forallb] in H. apply andb_true_iff in H. destruct H as [H _]. apply Z.eqb_eq. exact H.
+Qed.
+
+Definition derives (allow : bool) (c : cond) : Prop :=
+  if is_and c then H_item allow (tk c) (norm c) else H_un allow (tk c) (norm c).
+
+Lemma derives_item : forall allow c, derives allow c -> H_item allow (tk c) (norm c).
+Proof. intros allow c H. unfold derives in H. destruct (is_and c); [assumption|apply HI_un; assumption]. Qed.
+
+Lemma derives_list : forall allow subs,
+  Forall (fun c => forall allow, lexable c = true -> shape allow c = true -> cds_ok c = true -> derives allow c) subs ->
+  forallb lexable subs = true -> forallb (shape allow) subs = true -> forallb cds_ok subs = true ->
+  Forall (fun x => H_item allow (tk x) (norm x)) subs.
+Proof.
+  intros allow subs HF H1 H2 H3. rewrite forallb_forall in *. rewrite Forall_forall in *. intros x Hx.
+  apply derives_item. apply HF; auto.
+Qed.
+
+Lemma derive : forall c allow, lexable c = true -> shape allow c = true -> cds_ok c = true -> derives allow c.
+Proof.
+  induction c using cond_ind_nested; intros allow Hl Hs Hc; unfold derives; cbn [is_and]; cbn [lexable] in Hl.
+  - (* CSingle *)
+    unfold tk. cbn [lt norm]. rewrite map_app. cbn [map].
+    apply (HU_id allow n (tkn n) (mk_token name)); [apply notp_tkn|apply Z.eqb_eq; exact Hl].
+  - (* CScore *)
+    apply andb_true_iff in Hl. destruct Hl as [Hid Hs0]. destruct (show_Z_nonneg s ltac:(lia)) as [Hint Hdig].
+    unfold tk. cbn [lt norm]. rewrite map_app. cbn [map].
+    replace (CScore n name s) with (CScore n (ttext (mk_token name)) (int_of (ttext (mk_token (show_Z s)))))
+      by (cbn [ttext mk_token]; rewrite Hint; reflexivity).
+    apply (HU_score allow n (tkn n)); try reflexivity; [apply notp_tkn|apply Z.eqb_eq; exact Hid|].
+    apply digits_classify. assumption.
+  - (* CMin *)
+    apply andb_true_iff in Hl. destruct Hl as [Hk Hids]. destruct (show_Z_nonneg k ltac:(lia)) as [Hint Hdig].
+    cbn [shape] in Hs. apply andb_true_iff in Hs. destruct Hs as [Hal Hne]. subst allow.
+    destruct (sorted_set opts) as [|i l] eqn:E.
+    { destruct opts as [|o1 opts']; [discriminate Hne|]. exfalso.
+      assert (Hin : In o1 (sorted_set (o1 :: opts'))) by (apply sorted_set_In; left; reflexivity).
+      rewrite E in Hin. exact Hin. }
+    assert (Hids' : forallb is_id (i :: l) = true) by (rewrite <- E; apply sorted_set_forallb; assumption).
+    destruct (idtail_ljoin l i Hids') as [Tt [Heq HT]].
+    unfold tk. cbn [lt norm]. rewrite E. rewrite !map_app. rewrite Heq. cbn [map app].
+    replace (CMin n k (i :: l)) with (CMin n (int_of (ttext (mk_token (show_Z k)))) (ttext (mk_token i) :: l))
+      by (cbn [ttext mk_token]; rewrite Hint; reflexivity).
+    apply (HU_min true n (tkn n)); try reflexivity; try assumption; [apply notp_tkn|apply digits_classify; assumption|].
+    cbn [forallb] in Hids'. apply andb_true_iff in Hids'. destruct Hids' as [Hi _]. apply Z.eqb_eq. exact Hi.
+  - (* CCds *)
+    cbn [shape] in Hs. apply andb_true_iff in Hs. destruct Hs as [Hs Hsh]. apply andb_true_iff in Hs.
+    destruct Hs as [Hal Hne]. subst allow. cbn [cds_ok] in Hc. apply andb_true_iff in Hc. destruct Hc as [Hcont Hc].
+    unfold tk. cbn [lt norm]. rewrite !map_app. cbn [map app].
+    apply (HU_cds true n (tkn n)); try reflexivity; [apply notp_tkn| |assumption].
+    apply (ors_ljoin false subs); [destruct subs; [discriminate Hne|discriminate]|]. apply derives_list; assumption.
+  - (* CGroup *)
+    cbn [shape] in Hs. apply andb_true_iff in Hs. destruct Hs as [Hne Hsh]. cbn [cds_ok] in Hc.
+    assert (HI : Forall (fun x => H_item allow (tk x) (norm x)) subs) by (apply derives_list; assumption).
+    unfold tk. cbn [lt norm]. destruct subs as [|sub [|s2 r]]; [discriminate Hne| |].
+    + inversion HI as [|x l Hsub _]; subst.
+      assert (Grp : H_un allow (map mk_token (lt_neg n ++ codes "(" :: lt sub ++ [codes ")"])) (CGroup n [norm sub])).
+      { rewrite map_app. cbn [map]. rewrite map_app. cbn [map].
+        apply (HU_grp allow n (tkn n)); try reflexivity; [apply notp_tkn|].
+        rewrite <- (app_nil_r (map mk_token (lt sub))). apply HO_ors; [exact Hsub|constructor]. }
+      destruct (is_and sub) eqn:E; [exact Grp|].
+      destruct (n && starts_with s_not (show sub)) eqn:E2; [exact Grp|].
+      inversion H as [|x l Hd _]; subst. cbn [forallb] in Hl, Hsh, Hc. rewrite andb_true_r in Hl, Hsh, Hc.
+      specialize (Hd allow Hl Hsh Hc). unfold derives in Hd. rewrite E in Hd.
+      destruct n.
+      * cbn [andb] in E2. cbn [lt_neg app map]. apply H_un_negate; [exact Hd| |reflexivity].
+        rewrite <- sw_norm; assumption.
+      * cbn [lt_neg app]. exact Hd.
+    + rewrite map_app. cbn [map]. rewrite map_app. cbn [map].
+      apply (HU_grp allow n (tkn n)); try reflexivity; [apply notp_tkn|].
+      apply (ors_ljoin allow (sub :: s2 :: r)); [discriminate|assumption].
+  - (* CAnd *)
+    cbn [shape] in Hs. apply andb_true_iff in Hs. destruct Hs as [Hlen Hsh]. cbn [cds_ok] in Hc.
+    destruct ops as [|o1 [|o2 r]]; try discriminate Hlen.
+    assert (HU : Forall (fun x => H_un allow (tk x) (norm x)) (o1 :: o2 :: r)).
+    { rewrite forallb_forall in *. rewrite Forall_forall in *. intros x Hx.
+      specialize (Hsh x Hx). apply andb_true_iff in Hsh. destruct Hsh as [Hna Hshx]. apply negb_true_iff in Hna.
+      specialize (H x Hx allow (Hl x Hx) Hshx (Hc x Hx)). unfold derives in H. rewrite Hna in H. exact H. }
+    inversion HU as [|x l Hu1 Hur]; subst.
+    unfold tk. cbn [lt norm map]. pose proof (tk_ljoin (codes "and") (o2 :: r) o1) as Etk. cbn [map] in Etk. rewrite Etk.
+    apply HI_and; [assumption|apply (andtail_flat allow (o2 :: r)); assumption|discriminate].
+Qed.
+
+(* --- I7. meaning: any interpretation of the leaves, groups as OR, AndConditions as AND, cds(...) evaluated
+       in some gene's own environment --- *)
+Record env := mkEnv { eS : str -> bool; eSc : str -> Z -> bool; eM : Z -> list str -> bool }.
+Fixpoint den (g : env) (genes : list env) (c : cond) : bool :=
+  match c with
+  | CSingle n a => xorb n (eS g a)
+  | CScore n a s => xorb n (eSc g a s)
+  | CMin n k opts => xorb n (eM g k (sorted_set opts))
+  | CCds n subs => xorb n (existsb (fun e => existsb (den e []) subs) genes)
+  | CGroup n subs => xorb n (existsb (den g genes) subs)
+  | CAnd ops => forallb (den g genes) ops
+  end.
+
+Lemma existsb_map_ext : forall {A B} (f : B -> bool) (h : A -> B) (k : A -> bool) l,
+  Forall (fun x => f (h x) = k x) l -> existsb f (map h l) = existsb k l.
+Proof. induction 1; [reflexivity|]. cbn [map existsb]. congruence. Qed.
+Lemma forallb_map_ext : forall {A B} (f : B -> bool) (h : A -> B) (k : A -> bool) l,
+  Forall (fun x => f (h x) = k x) l -> forallb f (map h l) = forallb k l.
+Proof. induction 1; [reflexivity|]. cbn [map forallb]. congruence. Qed.
+Lemma existsb_ext_all : forall {A} (f k : A -> bool) l, (forall x, f x = k x) -> existsb f l = existsb k l.
+Proof. intros A f k l H. induction l as [|x l IH]; [reflexivity|]. cbn [existsb]. rewrite H, IH. reflexivity. Qed.
+
+Lemma den_negate : forall g genes x, is_and x = false -> cneg x = false -> den g genes (negate x) = negb (den g genes x).
+Proof.
+  intros g genes [] Ha Hc; cbn [cneg is_and] in Hc, Ha; subst; try discriminate Ha;
+    cbn [negate den]; rewrite ?xorb_true_l, ?xorb_false_l; reflexivity.
+Qed.
+
+Lemma den_norm : forall c, lexable c = true -> forall g genes, den g genes (norm c) = den g genes c.
+Proof.
+  induction c using cond_ind_nested; intros Hl g genes; cbn [lexable] in Hl; try reflexivity.
+  - cbn [norm den]. rewrite sorted_set_idem. reflexivity.
+  - cbn [norm den]. f_equal. apply existsb_ext_all. intros e. apply existsb_map_ext.
+    rewrite forallb_forall in Hl. rewrite Forall_forall in *. intros x Hx. apply H; [assumption|apply Hl; assumption].
+  - assert (HM : forall g genes, existsb (den g genes) (map norm subs) = existsb (den g genes) subs).
+    { intros g' genes'. apply existsb_map_ext. rewrite forallb_forall in Hl. rewrite Forall_forall in *.
+      intros x Hx. apply H; [assumption|apply Hl; assumption]. }
+    cbn [norm]. destruct subs as [|sub [|s2 r]]; [reflexivity| |cbn [den]; rewrite HM; reflexivity].
+    inversion H as [|x l Hs _]; subst. cbn [forallb] in Hl. rewrite andb_true_r in Hl. specialize (Hs Hl).
+    destruct (is_and sub) eqn:E; [cbn [den existsb]; rewrite Hs; reflexivity|].
+    destruct (n && starts_with s_not (show sub)) eqn:E2; [cbn [den existsb]; rewrite Hs; reflexivity|].
+    destruct n.
+    + cbn [andb] in E2. rewrite den_negate; [|rewrite norm_is_and; assumption|rewrite <- sw_norm; assumption].
+      cbn [den existsb]. rewrite Hs. destruct (den g genes sub); reflexivity.
+    + cbn [den existsb]. rewrite Hs. destruct (den g genes sub); reflexivity.
+  - cbn [norm den]. apply forallb_map_ext.
+    rewrite forallb_forall in Hl. rewrite Forall_forall in *. intros x Hx. apply H; [assumption|apply Hl; assumption].
+Qed.
+
+(* --- I8. the round trip --- *)
+Definition rt_ok (c : cond) : bool := lexable c && shape true c && cds_ok c && nrb c.
+
+Lemma roundtrip_conds : forall cs, cs <> [] -> forallb rt_ok cs = true ->
+  let toks := ljoin (codes "or") (map lt cs) in
+  tokenise (join s_or_sep (map show cs)) = Ok toks /\
+  (forall als cons f, nah als (map mk_token toks) = true -> (2 * length toks + 3 <= f)%nat ->
+     parse_conditions f true false (st (map mk_token toks) cons als)
+     = Ok (map norm cs, st [] (rev (map mk_token toks) ++ cons) als)) /\
+  map show (map norm cs) = map show cs /\
+  (forall g genes, map (den g genes) (map norm cs) = map (den g genes) cs).
+Proof.
+  intros cs Hne Hok toks.
+  assert (H4 : Forall (fun c => lexable c = true /\ shape true c = true /\ cds_ok c = true /\ nrb c = true) cs).
+  { rewrite forallb_forall in Hok. rewrite Forall_forall. intros x Hx. specialize (Hok x Hx). unfold rt_ok in Hok.
+    repeat rewrite andb_true_iff in Hok. tauto. }
+  rewrite Forall_forall in H4.
+  split; [|split; [|split]].
+  - unfold tokenise. rewrite <- (app_nil_r (join s_or_sep (map show cs))).
+    change s_or_sep with (32 :: codes "or" ++ [32]).
+    rewrite (lex_join (codes "or")); [|reflexivity| |exact I].
+    + cbn [tok_aux flush pre]. rewrite app_nil_r. reflexivity.
+    + rewrite Forall_forall. intros x Hx. apply lex_show. apply H4. assumption.
+  - intros als cons f Hna Hf.
+    assert (HD : H_ors true (map mk_token toks) (map norm cs)).
+    { apply ors_ljoin; [assumption|]. rewrite Forall_forall. intros x Hx. apply derives_item.
+      destruct (H4 x Hx) as [A [B [C _]]]. apply derive; assumption. }
+    destruct (parser_complete true) as [_ [_ [_ [_ Hors]]]].
+    assert (Hnr : forallb nrb (map norm cs) = true).
+    { rewrite forallb_forall. intros y Hy. apply in_map_iff in Hy. destruct Hy as [x [<- Hx]].
+      destruct (H4 x Hx) as [A [_ [_ D]]]. apply nrb_norm; assumption. }
+    pose proof (Hors _ _ HD Hnr als false [] cons f Hna eq_refl eq_refl eq_refl (fun _ => eq_refl)) as P.
+    rewrite app_nil_r in P. apply P. rewrite map_length. exact Hf.
+  - rewrite map_map. apply map_ext_Forall. rewrite Forall_forall. intros x Hx. apply show_norm. apply H4. assumption.
+  - intros g genes. rewrite map_map. apply map_ext_Forall. rewrite Forall_forall. intros x Hx. apply den_norm. apply H4. assumption.
+Qed.
+
+(* ====================================================================== *)
+(* J. the two presentations of the grammar agree (left- and right-        *)
+(*    recursive lists), hence: accepted <-> grammatical                    *)
+(* ====================================================================== *)
+Scheme G_core_mut := Minimality for G_core Sort Prop
+  with G_un_mut := Minimality for G_un Sort Prop
+  with G_andsR_mut := Minimality for G_andsR Sort Prop
+  with G_item_mut := Minimality for G_item Sort Prop
+  with G_orsR_mut := Minimality for G_orsR Sort Prop.
+Combined Scheme G_mutind from G_core_mut, G_un_mut, G_andsR_mut, G_item_mut, G_orsR_mut.
+
+Lemma andtail_snoc : forall allow T cs a T' c, H_andtail allow T cs -> ttype a = c02_T_AND -> H_un allow T' c ->
+  H_andtail allow (T ++ a :: T') (cs ++ [c]).
+Proof.
+  intros allow T cs a T' c H Ha Hc. induction H as [|al a0 T0 c0 T0' cs0 Ha0 Hu0 Ht0 IH].
+  - cbn [app]. rewrite <- (app_nil_r T'). apply HA_cons; [assumption|assumption|constructor].
+  - cbn [app]. rewrite <- app_assoc. apply HA_cons; [assumption|assumption|apply IH; assumption].
+Qed.
+
+Lemma ortail_snoc : forall allow T cs o T' c, H_ortail allow T cs -> ttype o = c02_T_OR -> H_item allow T' c ->
+  H_ortail allow (T ++ o :: T') (cs ++ [c]).
+Proof.
+  intros allow T cs o T' c H Ho Hc. induction H as [|al o0 T0 c0 T0' cs0 Ho0 Hi0 Ht0 IH].
+  - cbn [app]. rewrite <- (app_nil_r T'). apply HO_cons; [assumption|assumption|constructor].
+  - cbn [app]. rewrite <- app_assoc. apply HO_cons; [assumption|assumption|apply IH; assumption].
+Qed.
+
+Lemma ors_snoc : forall allow T cs o T' c, H_ors allow T cs -> ttype o = c02_T_OR -> H_item allow T' c ->
+  H_ors allow (T ++ o :: T') (cs ++ [c]).
+Proof.
+  intros allow T cs o T' c H Ho Hc. destruct H as [Ti ci Tt cst Hi Ht].
+  rewrite <- app_assoc. cbn [app]. apply HO_ors; [assumption|]. apply ortail_snoc; assumption.
+Qed.
+
+Lemma G_to_H : forall allow,
+  (forall neg T c, G_core allow neg T c -> forall N, notp neg N -> H_un allow (N ++ T) c) /\
+  (forall T c, G_un allow T c -> H_un allow T c) /\
+  (forall T ra, G_andsR allow T ra -> exists T1 c1 T2 cs, T = T1 ++ T2 /\ H_un allow T1 c1 /\
+                                        H_andtail allow T2 cs /\ rev ra = c1 :: cs) /\
+  (forall T c, G_item allow T c -> H_item allow T c) /\
+  (forall T racc, G_orsR allow T racc -> H_ors allow T (rev racc)).
+Proof.
+  apply G_mutind.
+  - intros allow neg t Ht N HN. apply HU_id; assumption.
+  - intros allow neg o c T racc Ho Hc _ IH N HN. apply HU_grp; assumption.
+  - intros allow neg k o c T racc Hal Hk Ho Hc _ IH Hcont N HN. apply HU_cds; assumption.
+  - intros allow neg m o k cm lo i Tt l lc c Hal Hm Ho Hk Hcm Hlo Hi Hid Hlc Hc N HN. apply HU_min; assumption.
+  - intros allow neg m o i cm sc c Hm Ho Hi Hcm Hsc Hc N HN. apply HU_score; assumption.
+  - intros allow T c _ IH. apply (IH []). reflexivity.
+  - intros allow nt T c Hnt _ IH. apply (IH [nt]). exists nt. split; [reflexivity|assumption].
+  - intros allow T c _ IH. exists T, c, [], []. split; [rewrite app_nil_r; reflexivity|]. split; [assumption|].
+    split; [constructor|reflexivity].
+  - intros allow T ra a T' c _ IH Ha _ IHu. destruct IH as [T1 [c1 [T2 [cs [HT [H1 [H2 Hr]]]]]]]. subst T.
+    exists T1, c1, (T2 ++ a :: T'), (cs ++ [c]). split; [rewrite <- app_assoc; reflexivity|]. split; [assumption|].
+    split; [apply andtail_snoc; assumption|]. cbn [rev]. rewrite Hr. reflexivity.
+  - intros allow T c _ IH. apply HI_un. assumption.
+  - intros allow T ra _ IH Hlen. destruct IH as [T1 [c1 [T2 [cs [HT [H1 [H2 Hr]]]]]]]. subst T. rewrite Hr.
+    apply HI_and; [assumption|assumption|]. intros ->.
+    assert (Hl : length (rev ra) = 1%nat) by (rewrite Hr; reflexivity). rewrite rev_length in Hl. lia.
+  - intros allow T c _ IH. cbn [rev app]. rewrite <- (app_nil_r T). apply HO_ors; [assumption|constructor].
+  - intros allow T racc o T' c _ IH Ho _ IHi. cbn [rev]. apply ors_snoc; assumption.
+Qed.
+
+Lemma G_ors_H_ors : forall allow T cs, G_ors allow T cs -> H_ors allow T cs.
+Proof.
+  intros allow T cs H. unfold G_ors in H. destruct (G_to_H allow) as [_ [_ [_ [_ Hors]]]].
+  apply Hors in H. rewrite rev_involutive in H. exact H.
+Qed.
+
+(* completeness of _parse_conditions for the grammar of section E *)
+Lemma precedence_complete : forall allow T cs, G_ors allow T cs -> forallb nrb cs = true ->
+  forall als g R cons f, nah als T = true -> nahd als R = true ->
+  hd_is c02_T_AND R = false -> hd_is c02_T_OR R = false ->
+  (forall cons', conditions_end g (st R cons' als) = Ok tt) -> (2 * length T + 3 <= f)%nat ->
+  parse_conditions f allow g (st (T ++ R) cons als) = Ok (cs, st R (rev T ++ cons) als).
+Proof.
+  intros allow T cs HG Hn. apply G_ors_H_ors in HG. destruct (parser_complete allow) as [_ [_ [_ [_ Hors]]]].
+  exact (Hors T cs HG Hn).
+Qed.
+
+(* ====================================================================== *)
+(* K. what every tree of a grammatical token list looks like              *)
+(* ====================================================================== *)
+Definition tok_wf (t : token) : Prop := ttype t = classify (ttext t).
+
+Lemma tok_wf_id : forall t, tok_wf t -> ttype t = c02_T_IDENTIFIER -> is_id (ttext t) = true.
+Proof. intros t H Ht. unfold is_id. rewrite <- H, Ht. reflexivity. Qed.
+
+Lemma classify_int_digits : forall s, classify s = c02_T_INT -> all_digits s = true.
+Proof.
+  intros s H. unfold classify in H. destruct (map_get s c02_token_mapping) eqn:E.
+  - apply map_get_Some in E. subst z.
+    assert (F : forallb (fun kv => negb (snd kv =? c02_T_INT)) c02_token_mapping = true) by (vm_compute; reflexivity).
+    rewrite forallb_forall in F. specialize (F _ E). cbn [snd] in F. rewrite Z.eqb_refl in F. discriminate F.
+  - destruct (all_digits s); [reflexivity|]. destruct (is_legal_identifier s); vm_compute in H; discriminate H.
+Qed.
+
+Lemma int_of_nonneg : forall s, forallb is_digit s = true -> 0 <= int_of s.
+Proof.
+  intros s H. unfold int_of.
+  assert (G : forall l a, forallb is_digit l = true -> 0 <= a -> 0 <= fold_left (fun a c => a * 10 + (c - 48)) l a).
+  { induction l as [|c l IH]; intros a Hl Ha; [exact Ha|]. cbn [forallb] in Hl. apply andb_true_iff in Hl.
+    destruct Hl as [Hc Hl]. cbn [fold_left]. apply IH; [assumption|]. unfold is_digit in Hc. lia. }
+  apply G; [assumption|lia].
+Qed.
+
+Lemma tok_wf_int : forall t, tok_wf t -> ttype t = c02_T_INT -> 0 <= int_of (ttext t).
+Proof.
+  intros t H Ht. apply int_of_nonneg. rewrite H in Ht. apply classify_int_digits in Ht.
+  unfold all_digits in Ht. destruct (ttext t); [discriminate Ht|assumption].
+Qed.
+
+Lemma idtail_ids : forall T l, H_idtail T l -> Forall tok_wf T -> forallb is_id l = true.
+Proof.
+  induction 1 as [|c t T l Hc Ht _ IH]; intros HF; [reflexivity|].
+  inversion HF as [|x1 l1 _ HF1]; subst. inversion HF1 as [|x2 l2 Hw HF2]; subst.
+  cbn [forallb]. rewrite (tok_wf_id t Hw Ht). apply IH. assumption.
+Qed.
+
+Ltac fa_split H := repeat (rewrite Forall_app in H || rewrite Forall_cons_iff in H).
+
+Lemma H_shape : forall allow,
+  (forall T c, H_un allow T c -> Forall tok_wf T -> lexable c = true /\ shape allow c = true /\ is_and c = false) /\
+  (forall T cs, H_andtail allow T cs -> Forall tok_wf T ->
+     forallb lexable cs = true /\ forallb (fun o => negb (is_and o) && shape allow o) cs = true) /\
+  (forall T c, H_item allow T c -> Forall tok_wf T -> lexable c = true /\ shape allow c = true) /\
+  (forall T cs, H_ortail allow T cs -> Forall tok_wf T -> forallb lexable cs = true /\ forallb (shape allow) cs = true) /\
+  (forall T cs, H_ors allow T cs -> Forall tok_wf T ->
+     forallb lexable cs = true /\ forallb (shape allow) cs = true /\ cs <> []).
+Proof.
+  apply H_mutind.
+  - intros allow neg N t _ Ht HF. fa_split HF. destruct HF as [_ [Hw _]].
+    cbn [lexable shape is_and]. rewrite (tok_wf_id t Hw Ht). repeat split.
+  - intros allow neg N m o i cm sc c _ Hm Ho Hi Hcm Hsc Hc HF. fa_split HF.
+    destruct HF as [_ [_ [_ [Hwi [_ [Hwsc _]]]]]].
+    cbn [lexable shape is_and]. rewrite (tok_wf_id i Hwi Hi). pose proof (tok_wf_int sc Hwsc Hsc).
+    repeat split. cbn [andb]. lia.
+  - intros allow neg N m o k cm lo i Tt l lc c _ Hal Hm Ho Hk Hcm Hlo Hi Hid Hlc Hc HF. fa_split HF.
+    destruct HF as [_ [_ [_ [Hwk [_ [_ [Hwi [HwT _]]]]]]]]. subst allow.
+    cbn [lexable shape is_and forallb is_nil]. rewrite (tok_wf_id i Hwi Hi), (idtail_ids Tt l Hid HwT).
+    pose proof (tok_wf_int k Hwk Hk). repeat split. cbn [andb]. lia.
+  - intros allow neg N o T cs c _ Ho Hc _ IH HF. fa_split HF. destruct HF as [_ [_ [HwT _]]].
+    destruct (IH HwT) as [H1 [H2 H3]]. cbn [lexable shape is_and]. rewrite H1, H2.
+    destruct cs; [contradiction H3; reflexivity|]. repeat split.
+  - intros allow neg N k o T cs c _ Hal Hk Ho Hc _ IH Hcont HF. fa_split HF. destruct HF as [_ [_ [_ [HwT _]]]].
+    destruct (IH HwT) as [H1 [H2 H3]]. subst allow. cbn [lexable shape is_and]. rewrite H1, H2.
+    destruct cs; [contradiction H3; reflexivity|]. repeat split.
+  - intros allow _. split; reflexivity.
+  - intros allow a T c T' cs Ha _ IHu _ IHt HF. fa_split HF. destruct HF as [_ [HwT HwT']].
+    destruct (IHu HwT) as [H1 [H2 H3]]. destruct (IHt HwT') as [H4 H5].
+    cbn [forallb]. rewrite H1, H2, H3, H4, H5. split; reflexivity.
+  - intros allow T c _ IH HF. destruct (IH HF) as [H1 [H2 _]]. split; assumption.
+  - intros allow T1 c1 T2 cs _ IHu _ IHt Hne HF. fa_split HF. destruct HF as [HwT1 HwT2].
+    destruct (IHu HwT1) as [H1 [H2 H3]]. destruct (IHt HwT2) as [H4 H5].
+    cbn [lexable shape forallb]. rewrite H1, H2, H3, H4, H5.
+    destruct cs; [contradiction Hne; reflexivity|]. split; reflexivity.
+  - intros allow _. split; reflexivity.
+  - intros allow o T c T' cs Ho _ IHi _ IHt HF. fa_split HF. destruct HF as [_ [HwT HwT']].
+    destruct (IHi HwT) as [H1 H2]. destruct (IHt HwT') as [H3 H4]. cbn [forallb]. rewrite H1, H2, H3, H4. split; reflexivity.
+  - intros allow T c T' cs _ IHi _ IHt HF. fa_split HF. destruct HF as [HwT HwT'].
+    destruct (IHi HwT) as [H1 H2]. destruct (IHt HwT') as [H3 H4]. cbn [forallb]. rewrite H1, H2, H3, H4.
+    split; [reflexivity|]. split; [reflexivity|discriminate].
+Qed.
+
+(* the trees returned by _parse_conditions have the shape, names and numbers the round trip asks for *)
+Lemma parsed_shape : forall f allow g s cs s', parse_conditions f allow g s = Ok (cs, s') ->
+  Forall tok_wf (consumed s') ->
+  forallb (fun c => lexable c && shape allow c && nrb c) cs = true /\ cs <> [].
+Proof.
+  intros f allow g s cs s' H HF.
+  pose proof (parse_conditions_nrb _ _ _ _ _ _ H) as Hn.
+  destruct (precedence_sound _ _ _ _ _ _ H) as [T [HT HG]]. apply G_ors_H_ors in HG.
+  rewrite HT in HF. apply Forall_app in HF. destruct HF as [HF _]. apply Forall_rev in HF. rewrite rev_involutive in HF.
+  destruct (H_shape allow) as [_ [_ [_ [_ Hors]]]]. destruct (Hors T cs HG HF) as [H1 [H2 H3]].
+  split; [|assumption]. rewrite forallb_forall in *. intros x Hx. rewrite (H1 x Hx), (H2 x Hx), (Hn x Hx). reflexivity.
+Qed.
+
+(* ====================================================================== *)
+(* L. ill-formed classes are rejected                                      *)
+(* ====================================================================== *)
+
+(* --- duplicate alias name, duplicate rule name: the step of Parser.__init__ raises ValueError --- *)
+Lemma consume_aliases : forall k s t s', consume k s = Ok (t, s') -> aliases s' = aliases s.
+Proof.
+  intros k s t s' H. unfold consume in H. destruct (cur s); [|discriminate H].
+  destruct (negb (ttype t0 =? k)); [discriminate H|]. repeat step H; inversion H; subst; reflexivity.
+Qed.
+
+Lemma alias_loop_aliases : forall f acc s toks s', alias_loop f acc s = Ok (toks, s') -> aliases s' = aliases s.
+Proof.
+  induction f as [|f IH]; intros acc s toks s' H; cbn [alias_loop] in H; [discriminate H|].
+  repeat step H; try (inversion H; subst; reflexivity).
+  apply IH in H. match goal with E : consume _ _ = Ok _ |- _ => apply consume_aliases in E end. congruence.
+Qed.
+
+Lemma parse_alias_aliases : forall f s name toks s', parse_alias f s = Ok (name, toks, s') -> aliases s' = aliases s.
+Proof.
+  intros f s name toks s' H. unfold parse_alias in H. repeat step H. inversion H; subst.
+  repeat match goal with E : consume _ _ = Ok _ |- _ => apply consume_aliases in E end.
+  match goal with E : alias_loop _ _ _ = Ok _ |- _ => apply alias_loop_aliases in E end. congruence.
+Qed.
+
+Lemma rejects_duplicate_alias : forall n sigs cats m rules s t name toks s1,
+  cur s = Some t -> ttype t = c02_T_DEFINE -> parse_alias (fuel_for s) s = Ok (name, toks, s1) ->
+  isSomeB (alias_get name (aliases s)) = true ->
+  main_loop (S n) sigs cats m rules s = Err E_Value.
+Proof.
+  intros n sigs cats m rules s t name toks s1 Hc Ht Hp Hd. cbn [main_loop]. rewrite Hc, Ht.
+  change (negb (is_starter c02_T_DEFINE)) with false. change (c02_T_DEFINE =? c02_T_DEFINE) with true. cbv iota.
+  rewrite Hp. cbn [bind]. rewrite (parse_alias_aliases _ _ _ _ _ Hp), Hd.
+  destruct (negb (alias_name_ok name sigs rules cats)); reflexivity.
+Qed.
+
+Lemma rejects_duplicate_rule : forall n sigs cats m rules s t r s1,
+  cur s = Some t -> ttype t = c02_T_RULE -> parse_rule (fuel_for s) rules cats s = Ok (r, s1) ->
+  isSomeB (known_get (r_name r) rules) = true ->
+  main_loop (S n) sigs cats m rules s = Err E_Value.
+Proof.
+  intros n sigs cats m rules s t r s1 Hc Ht Hp Hd. cbn [main_loop]. rewrite Hc, Ht.
+  change (negb (is_starter c02_T_RULE)) with false. change (c02_T_RULE =? c02_T_DEFINE) with false. cbv iota.
+  rewrite Hp. cbn [bind]. rewrite Hd. reflexivity.
+Qed.
+
+(* an alias may not be named like a signature, an earlier rule or a category either *)
+Lemma rejects_alias_name_clash : forall n sigs cats m rules s t name toks s1,
+  cur s = Some t -> ttype t = c02_T_DEFINE -> parse_alias (fuel_for s) s = Ok (name, toks, s1) ->
+  (In name sigs \/ In name cats \/ In name (map r_name rules)) ->
+  main_loop (S n) sigs cats m rules s = Err E_Value.
+Proof.
+  intros n sigs cats m rules s t name toks s1 Hc Ht Hp Hd. cbn [main_loop]. rewrite Hc, Ht.
+  change (negb (is_starter c02_T_DEFINE)) with false. change (c02_T_DEFINE =? c02_T_DEFINE) with true. cbv iota.
+  rewrite Hp. cbn [bind].
+  assert (E : alias_name_ok name sigs rules cats = false).
+  { unfold alias_name_ok. destruct Hd as [Hd|[Hd|Hd]].
+    - apply smem_In in Hd. rewrite Hd. cbn [negb]. rewrite andb_false_r. reflexivity.
+    - apply smem_In in Hd. rewrite Hd. cbn [negb]. rewrite andb_false_r. reflexivity.
+    - destruct (known_get name rules) eqn:K; [rewrite andb_false_r; reflexivity|].
+      apply known_get_none in K. contradiction. }
+  rewrite E. reflexivity.
+Qed.
+
+(* --- minimum(): a count below 1 or a repeated option raises ValueError --- *)
+Lemma mk_min_rejects : forall n k opts, (k < 1 \/ has_dup opts = true) -> mk_min n k opts = Err E_Value.
+Proof.
+  intros n k opts H. unfold mk_min. destruct (has_dup opts); [reflexivity|].
+  destruct H as [H|H]; [|discriminate H]. destruct (k <? 1) eqn:E; [reflexivity|]. lia.
+Qed.
+
+(* --- unbalanced group: the tokens that _parse_conditions consumes are balanced --- *)
+Fixpoint depth_ok (T : list token) (d : nat) : bool :=
+  match T with
+  | [] => match d with O => true | _ => false end
+  | t :: r => if ttype t =? c02_T_GROUP_OPEN then depth_ok r (S d)
+              else if ttype t =? c02_T_GROUP_CLOSE then match d with O => false | S d' => depth_ok r d' end
+              else depth_ok r d
+  end.
+Definition balanced (T : list token) : Prop := depth_ok T O = true.
+Definition bal_seg (T : list token) : Prop := forall r d, depth_ok (T ++ r) d = depth_ok r d.
+
+Lemma bal_skip : forall t, (ttype t =? c02_T_GROUP_OPEN) = false -> (ttype t =? c02_T_GROUP_CLOSE) = false -> bal_seg [t].
+Proof. intros t H1 H2 r d. cbn [app depth_ok]. rewrite H1, H2. reflexivity. Qed.
+Lemma bal_app : forall A B, bal_seg A -> bal_seg B -> bal_seg (A ++ B).
+Proof. intros A B HA HB r d. rewrite <- app_assoc, HA, HB. reflexivity. Qed.
+Lemma bal_nil : bal_seg [].
+Proof. intros r d. reflexivity. Qed.
+Lemma bal_paren : forall o c T, ttype o = c02_T_GROUP_OPEN -> ttype c = c02_T_GROUP_CLOSE -> bal_seg T -> bal_seg (o :: T ++ [c]).
+Proof.
+  intros o c T Ho Hc HT r d. cbn [app depth_ok]. rewrite Ho. change (c02_T_GROUP_OPEN =? c02_T_GROUP_OPEN) with true. cbv iota.
+  rewrite <- app_assoc, HT. cbn [app depth_ok]. rewrite Hc.
+  change (c02_T_GROUP_CLOSE =? c02_T_GROUP_OPEN) with false. change (c02_T_GROUP_CLOSE =? c02_T_GROUP_CLOSE) with true. reflexivity.
+Qed.
+Lemma bal_ty : forall t k, ttype t = k -> (k =? c02_T_GROUP_OPEN) = false -> (k =? c02_T_GROUP_CLOSE) = false -> bal_seg [t].
+Proof. intros t k <- H1 H2. apply bal_skip; assumption. Qed.
+Lemma bal_cons : forall t T, bal_seg [t] -> bal_seg T -> bal_seg (t :: T).
+Proof. intros t T H1 H2. apply (bal_app [t] T); assumption. Qed.
+
+Lemma bal_notp : forall neg N, notp neg N -> bal_seg N.
+Proof.
+  intros [|] N H; cbn [notp] in H.
+  - destruct H as [nt [-> Hnt]]. eapply bal_ty; [eassumption|reflexivity|reflexivity].
+  - subst. apply bal_nil.
+Qed.
+
+Lemma bal_idtail : forall T l, H_idtail T l -> bal_seg T.
+Proof.
+  induction 1 as [|c t T l Hc Ht _ IH]; [apply bal_nil|].
+  apply bal_cons; [eapply bal_ty; [eassumption|reflexivity|reflexivity]|].
+  apply bal_cons; [eapply bal_ty; [eassumption|reflexivity|reflexivity]|assumption].
+Qed.
+
+Ltac balk := eapply bal_ty; [eassumption|reflexivity|reflexivity].
+
+Lemma H_balanced : forall allow,
+  (forall T c, H_un allow T c -> bal_seg T) /\ (forall T cs, H_andtail allow T cs -> bal_seg T) /\
+  (forall T c, H_item allow T c -> bal_seg T) /\ (forall T cs, H_ortail allow T cs -> bal_seg T) /\
+  (forall T cs, H_ors allow T cs -> bal_seg T).
+Proof.
+  apply H_mutind.
+  - intros allow neg N t HN Ht. apply bal_app; [eapply bal_notp; eassumption|balk].
+  - intros allow neg N m o i cm sc c HN Hm Ho Hi Hcm Hsc Hc. apply bal_app; [eapply bal_notp; eassumption|].
+    apply bal_cons; [balk|]. apply (bal_paren o c [i; cm; sc]); [assumption|assumption|].
+    apply bal_cons; [balk|]. apply bal_cons; [balk|]. balk.
+  - intros allow neg N m o k cm lo i Tt l lc c HN Hal Hm Ho Hk Hcm Hlo Hi Hid Hlc Hc.
+    apply bal_app; [eapply bal_notp; eassumption|]. apply bal_cons; [balk|].
+    replace (k :: cm :: lo :: i :: Tt ++ [lc; c]) with ((k :: cm :: lo :: i :: Tt ++ [lc]) ++ [c])
+      by (cbn [app]; rewrite <- app_assoc; reflexivity).
+    apply bal_paren; [assumption|assumption|].
+    apply bal_cons; [balk|]. apply bal_cons; [balk|]. apply bal_cons; [balk|]. apply bal_cons; [balk|].
+    apply bal_app; [eapply bal_idtail; eassumption|balk].
+  - intros allow neg N o T cs c HN Ho Hc _ IH. apply bal_app; [eapply bal_notp; eassumption|].
+    apply bal_paren; assumption.
+  - intros allow neg N k o T cs c HN Hal Hk Ho Hc _ IH _. apply bal_app; [eapply bal_notp; eassumption|].
+    apply bal_cons; [balk|]. apply bal_paren; assumption.
+  - intros allow. apply bal_nil.
+  - intros allow a T c T' cs Ha _ IHu _ IHt. apply bal_cons; [balk|]. apply bal_app; assumption.
+  - intros allow T c _ IH. assumption.
+  - intros allow T1 c1 T2 cs _ IH1 _ IH2 _. apply bal_app; assumption.
+  - intros allow. apply bal_nil.
+  - intros allow o T c T' cs Ho _ IHi _ IHt. apply bal_cons; [balk|]. apply bal_app; assumption.
+  - intros allow T c T' cs _ IHi _ IHt. apply bal_app; assumption.
+Qed.
+
+Lemma consumed_balanced : forall f allow g s cs s', parse_conditions f allow g s = Ok (cs, s') ->
+  exists T, consumed s' = rev T ++ consumed s /\ balanced T.
+Proof.
+  intros f allow g s cs s' H. destruct (precedence_sound _ _ _ _ _ _ H) as [T [HT HG]]. exists T. split; [assumption|].
+  apply G_ors_H_ors in HG. destruct (H_balanced allow) as [_ [_ [_ [_ Hors]]]].
+  unfold balanced. rewrite <- (app_nil_r T). rewrite (Hors T cs HG [] O). reflexivity.
+Qed.
+
+(* --- missing section keyword: an accepted RULE block has consumed RULE id CATEGORY id ... CUTOFF int
+       NEIGHBOURHOOD int CONDITIONS ..., in this order --- *)
+Definition trx (s s' : pst) : Prop := exists T, trace s s' T.
+Lemma trx_refl : forall s, trx s s.
+Proof. intros s. exists []. apply trace_nil. Qed.
+Lemma trx_trans : forall a b c, trx a b -> trx b c -> trx a c.
+Proof. intros a b c [T1 H1] [T2 H2]. exists (T1 ++ T2). eapply trace_app; eassumption. Qed.
+Lemma consume_trx : forall k s t s', consume k s = Ok (t, s') -> trx s s'.
+Proof. intros k s t s' H. apply consume_trace in H. destruct H as [H _]. exists [t]. exact H. Qed.
+
+Lemma parse_description_trx : forall s d s', parse_description s = Ok (d, s') -> trx s s'.
+Proof.
+  intros s d s' H. unfold parse_description in H. repeat step H. inversion H; subst.
+  match goal with E : consume _ _ = Ok _ |- _ => apply consume_trx in E; destruct E as [T HT] end.
+  exists T. exact HT.
+Qed.
+
+Lemma parse_example_trx : forall s e s', parse_example s = Ok (e, s') -> trx s s'.
+Proof.
+  intros s e s' H. unfold parse_example in H.
+  destruct (consume c02_T_EXAMPLE s) as [[x1 s1]|] eqn:E1; [cbn [bind] in H|discriminate H].
+  destruct (consume c02_T_IDENTIFIER s1) as [[x2 s2]|] eqn:E2; [cbn [bind] in H|discriminate H].
+  destruct (consume c02_T_IDENTIFIER s2) as [[x3 s3]|] eqn:E3; [cbn [bind] in H|discriminate H].
+  destruct (consume c02_T_DOT s3) as [[x4 s4]|] eqn:E4; [cbn [bind] in H|discriminate H].
+  destruct (consume c02_T_INT s4) as [[x5 s5]|] eqn:E5; [cbn [bind] in H|discriminate H].
+  destruct (consume c02_T_TEXT s5) as [[x6 s6]|] eqn:E6; [cbn [bind] in H|discriminate H].
+  assert (H6 : trx s s6).
+  { eapply trx_trans; [eapply consume_trx; eassumption|]. eapply trx_trans; [eapply consume_trx; eassumption|].
+    eapply trx_trans; [eapply consume_trx; eassumption|]. eapply trx_trans; [eapply consume_trx; eassumption|].
+    eapply trx_trans; [eapply consume_trx; eassumption|]. eapply consume_trx; eassumption. }
+  match type of H with bind ?e _ = _ => destruct e as [[cmp s7]|] eqn:E7; [cbn [bind] in H|discriminate H] end.
+  assert (H7 : trx s6 s7).
+  { destruct (cur s6); [|inversion E7; subst; apply trx_refl]. repeat step E7. inversion E7; subst.
+    exists []. reflexivity. }
+  repeat step H. inversion H; subst. eapply trx_trans; eassumption.
+Qed.
+
+Lemma examples_loop_trx : forall f acc s l s', examples_loop f acc s = Ok (l, s') -> trx s s'.
+Proof.
+  induction f as [|f IH]; intros acc s l s' H; cbn [examples_loop] in H; [discriminate H|].
+  repeat step H.
+  - eapply trx_trans; [eapply parse_example_trx; eassumption|eapply IH; eassumption].
+  - inversion H; subst. apply trx_refl.
+Qed.
+
+Lemma parse_comma_ids_trx : forall f s l s', parse_comma_ids f s = Ok (l, s') -> trx s s'.
+Proof.
+  intros f s l s' H. apply parse_comma_ids_trace in H. destruct H as [i [Tt [l' [HT _]]]]. eexists. exact HT.
+Qed.
+
+Lemma parse_cds_trx : forall f s cs s', parse_cds f s = Ok (cs, s') -> trx s s'.
+Proof.
+  intros f s cs s' H. destruct (parser_grammar f) as [_ [Hc _]]. apply Hc in H.
+  destruct H as [k [o [T [c [HT _]]]]]. eexists. exact HT.
+Qed.
+Lemma parse_single_trx : forall f a s c s', parse_single f a s = Ok (c, s') -> trx s s'.
+Proof.
+  intros f a s c s' H. destruct (parser_grammar f) as [Hs _]. apply Hs in H. destruct H as [T [HT _]]. eexists. exact HT.
+Qed.
+
+Lemma parse_extenders_trx : forall f s e s', parse_extenders f s = Ok (e, s') -> trx s s'.
+Proof.
+  intros f s e s' H. unfold parse_extenders in H. destruct (cur_is c02_T_EXTENDERS s); [|inversion H; subst; apply trx_refl].
+  repeat step H; inversion H; subst;
+    (eapply trx_trans; [eapply consume_trx; eassumption|]);
+    first [eapply parse_cds_trx; eassumption | eapply parse_single_trx; eassumption].
+Qed.
+
+Lemma rule_sections : forall f known cats s r s', parse_rule f known cats s = Ok (r, s') ->
+  exists tR tN tCat tC A tCut tCi tNe tNi tCo B,
+    trace s s' ([tR; tN; tCat; tC] ++ A ++ [tCut; tCi; tNe; tNi; tCo] ++ B) /\
+    ttype tR = c02_T_RULE /\ ttype tN = c02_T_IDENTIFIER /\ ttype tCat = c02_T_CATEGORY /\
+    ttype tC = c02_T_IDENTIFIER /\ ttype tCut = c02_T_CUTOFF /\ ttype tCi = c02_T_INT /\
+    ttype tNe = c02_T_NEIGHBOURHOOD /\ ttype tNi = c02_T_INT /\ ttype tCo = c02_T_CONDITIONS /\
+    r_name r = ttext tN /\ r_cat r = ttext tC.
+Proof.
+  intros f known cats s r s' H. unfold parse_rule in H.
+  destruct (consume c02_T_RULE s) as [[tR s1]|] eqn:E1; [cbn [bind] in H|discriminate H].
+  destruct (cur_aliased s1); [discriminate H|].
+  destruct (consume c02_T_IDENTIFIER s1) as [[tN s2]|] eqn:E2; [cbn [bind] in H|discriminate H].
+  destruct (cur_none s2); [discriminate H|].
+  destruct (consume c02_T_CATEGORY s2) as [[tCat s3]|] eqn:E3; [cbn [bind] in H|discriminate H].
+  destruct (consume c02_T_IDENTIFIER s3) as [[tC s4]|] eqn:E4; [cbn [bind] in H|discriminate H].
+  destruct (negb (smem (ttext tC) cats)); [discriminate H|].
+  destruct (cur_none s4); [discriminate H|].
+  match type of H with bind ?e _ = _ => destruct e as [[desc s5]|] eqn:E5; [cbn [bind] in H|discriminate H] end.
+  assert (H5 : trx s4 s5).
+  { destruct (cur_is c02_T_DESCRIPTION s4); [eapply parse_description_trx; eassumption|inversion E5; subst; apply trx_refl]. }
+  destruct (examples_loop f [] s5) as [[exs s6]|] eqn:E6; [cbn [bind] in H|discriminate H].
+  assert (H6 : trx s5 s6) by (eapply examples_loop_trx; eassumption).
+  match type of H with bind ?e _ = _ => destruct e as [[rel s7]|] eqn:E7; [cbn [bind] in H|discriminate H] end.
+  assert (H7 : trx s6 s7).
+  { destruct (cur_is c02_T_RELATED s6); [|inversion E7; subst; apply trx_refl].
+    destruct (consume c02_T_RELATED s6) as [[x sx]|] eqn:Ex; [cbn [bind] in E7|discriminate E7].
+    eapply trx_trans; [eapply consume_trx; eassumption|eapply parse_comma_ids_trx; eassumption]. }
+  destruct (cur_none s7); [discriminate H|].
+  match type of H with bind ?e _ = _ => destruct e as [[sups s8]|] eqn:E8; [cbn [bind] in H|discriminate H] end.
+  assert (H8 : trx s7 s8).
+  { destruct (cur_is c02_T_SUPERIORS s7); [|inversion E8; subst; apply trx_refl].
+    unfold parse_superiors in E8.
+    destruct (consume c02_T_SUPERIORS s7) as [[x sx]|] eqn:Ex; [cbn [bind] in E8|discriminate E8].
+    destruct (parse_comma_ids f sx) as [[ids sy]|] eqn:Ey; [cbn [bind] in E8|discriminate E8].
+    destruct (close_superiors known ids); [cbn [bind] in E8|discriminate E8]. inversion E8; subst.
+    eapply trx_trans; [eapply consume_trx; eassumption|eapply parse_comma_ids_trx; eassumption]. }
+  destruct (consume c02_T_CUTOFF s8) as [[tCut s9]|] eqn:E9; [cbn [bind] in H|discriminate H].
+  destruct (consume c02_T_INT s9) as [[tCi s10]|] eqn:E10; [cbn [bind] in H|discriminate H].
+  destruct (consume c02_T_NEIGHBOURHOOD s10) as [[tNe s11]|] eqn:E11; [cbn [bind] in H|discriminate H].
+  destruct (consume c02_T_INT s11) as [[tNi s12]|] eqn:E12; [cbn [bind] in H|discriminate H].
+  destruct (consume c02_T_CONDITIONS s12) as [[tCo s13]|] eqn:E13; [cbn [bind] in H|discriminate H].
+  destruct (parse_conditions f true false s13) as [[subs s14]|] eqn:E14; [cbn [bind] in H|discriminate H].
+  destruct (mk_group false subs) as [cond0|] eqn:E15; [cbn [bind] in H|discriminate H].
+  destruct (parse_extenders f s14) as [[ext s15]|] eqn:E16; [cbn [bind] in H|discriminate H].
+  repeat step H. inversion H; subst; clear H. cbn [r_name r_cat].
+  apply consume_trace in E1, E2, E3, E4, E9, E10, E11, E12, E13.
+  destruct E1 as [T1 K1], E2 as [T2 K2], E3 as [T3 K3], E4 as [T4 K4], E9 as [T9 K9], E10 as [T10 K10],
+           E11 as [T11 K11], E12 as [T12 K12], E13 as [T13 K13].
+  destruct H5 as [A5 H5], H6 as [A6 H6], H7 as [A7 H7], H8 as [A8 H8].
+  destruct (precedence_sound _ _ _ _ _ _ E14) as [Tc [HTc _]].
+  destruct (parse_extenders_trx _ _ _ _ E16) as [Te HTe].
+  exists tR, tN, tCat, tC, (A5 ++ A6 ++ A7 ++ A8), tCut, tCi, tNe, tNi, tCo, (Tc ++ Te).
+  split; [|repeat split; assumption].
+  assert (TA : trace s s4 [tR; tN; tCat; tC]).
+  { exact (trace_app _ _ _ [tR] _ T1 (trace_app _ _ _ [tN] _ T2 (trace_app _ _ _ [tCat] _ T3 T4))). }
+  assert (TB : trace s4 s8 (A5 ++ A6 ++ A7 ++ A8)).
+  { exact (trace_app _ _ _ _ _ H5 (trace_app _ _ _ _ _ H6 (trace_app _ _ _ _ _ H7 H8))). }
+  assert (TC : trace s8 s13 [tCut; tCi; tNe; tNi; tCo]).
+  { exact (trace_app _ _ _ [tCut] _ T9 (trace_app _ _ _ [tCi] _ T10 (trace_app _ _ _ [tNe] _ T11
+             (trace_app _ _ _ [tNi] _ T12 T13)))). }
+  assert (TD : trace s13 s' (Tc ++ Te)) by (exact (trace_app _ _ _ _ _ HTc HTe)).
+  exact (trace_app _ _ _ _ _ TA (trace_app _ _ _ _ _ TB (trace_app _ _ _ _ _ TC TD))).
+Qed.
+
+(* --- the text that reconstruct_rule_text prints after CONDITIONS --- *)
+Lemma strip_parens_wrapped : forall X, strip_parens (40 :: X ++ [41]) = X.
+Proof. intros X. unfold strip_parens. rewrite rev_app_distr. cbn [rev app]. apply rev_involutive. Qed.
+
+Lemma conditions_text : forall cs,
+  match cs with [] => false | [c] => is_and c | _ => true end = true ->
+  strip_parens (show (CGroup false cs)) = join s_or_sep (map show cs).
+Proof.
+  intros cs H. cbn [show]. destruct cs as [|c [|c2 r]]; [discriminate H| |].
+  - rewrite H. cbn [prefix app map join]. change (codes "(") with [40]. change (codes ")") with [41].
+    cbn [app]. apply strip_parens_wrapped.
+  - cbn [prefix app]. change (codes "(") with [40]. change (codes ")") with [41]. cbn [app]. apply strip_parens_wrapped.
+Qed.
+
+(* ====================================================================== *)
+(* M. DEFINE = textual substitution over the whole token stream of the conditions *)
+(* ====================================================================== *)
+(* ====================================================================== *)
+(* M. DEFINE = textual substitution, for the whole CONDITIONS stream       *)
+(* ====================================================================== *)
+
+(* Xp als L L' : L' is L with every alias use expanded, recursively, the way _consume does it
+   (the first token of a spliced definition is not looked up again, so it must not be an alias name) *)
+Inductive Xp (als : list (str * list token)) : list token -> list token -> Prop :=
+| Xp_nil : Xp als [] []
+| Xp_keep : forall n r r', alias_head als n = false -> Xp als r r' -> Xp als (n :: r) (n :: r')
+| Xp_splice : forall n r b B r', ttype n = c02_T_IDENTIFIER -> alias_get (ttext n) als = Some (b :: B) ->
+    alias_head als b = false -> Xp als (B ++ r) r' -> Xp als (n :: r) (b :: r').
+
+(* the expanded stream mentions no alias *)
+Lemma Xp_nah : forall als L L', Xp als L L' -> nah als L' = true.
+Proof.
+  intros als L L' H. induction H as [|n r r' Hn _ IH|n r b B r' _ _ Hb _ IH].
+  - reflexivity.
+  - cbn [nah forallb]. rewrite Hn. exact IH.
+  - cbn [nah forallb]. rewrite Hb. exact IH.
+Qed.
+
+(* a stream without alias names is its own expansion *)
+Lemma Xp_refl : forall als L, nah als L = true -> Xp als L L.
+Proof.
+  intros als L. induction L as [|n r IH]; intros H; [constructor|].
+  cbn [nah forallb] in H. apply andb_true_iff in H. destruct H as [H1 H2]. apply negb_true_iff in H1.
+  apply Xp_keep; [assumption|apply IH; assumption].
+Qed.
+
+Definition sim (s s' : pst) : Prop :=
+  cur s = cur s' /\ consumed s = consumed s' /\ aliases s = aliases s' /\ Xp (aliases s) (rest s) (rest s').
+
+Definition simr {A} (r r' : res (A * pst)) : Prop :=
+  match r, r' with
+  | Ok (v, s1), Ok (v', s1') => v = v' /\ sim s1 s1'
+  | Err k, Err k' => k = k'
+  | _, _ => False
+  end.
+
+Lemma alias_head_false_lookup : forall als n, alias_head als n = false ->
+  (if ttype n =? c02_T_IDENTIFIER then alias_get (ttext n) als else None) = None.
+Proof.
+  intros als n H. unfold alias_head in H. destruct (ttype n =? c02_T_IDENTIFIER); [|reflexivity].
+  cbn [andb] in H. destruct (alias_get (ttext n) als); [discriminate H|reflexivity].
+Qed.
+
+(* step 3: one _consume *)
+Lemma consume_sim : forall k s s', sim s s' -> simr (consume k s) (consume k s').
+Proof.
+  intros k [c L cons als] [c' L' cons' als'] [Hc [Hcons [Hal Hx]]].
+  cbn [cur rest consumed aliases] in *. subst c' cons' als'.
+  unfold consume. cbn [cur rest consumed aliases].
+  destruct c as [t|]; [|reflexivity].
+  destruct (negb (ttype t =? k)); [reflexivity|].
+  inversion Hx as [|n r r' Hn Hr|n r b B r' Hn Hg Hb Hr]; subst.
+  - cbn [simr]. split; [reflexivity|]. repeat split. cbn [aliases rest]. constructor.
+  - rewrite (alias_head_false_lookup als n Hn). cbn [simr]. split; [reflexivity|]. repeat split.
+    cbn [aliases rest]. assumption.
+  - rewrite Hn, Z.eqb_refl, Hg. cbn [app]. rewrite (alias_head_false_lookup als b Hb).
+    cbn [simr]. split; [reflexivity|]. repeat split. cbn [aliases rest]. assumption.
+Qed.
+
+(* step 4 *)
+Lemma simr_bind : forall A B (r r' : res (A * pst)) (k k' : A * pst -> res (B * pst)),
+  simr r r' -> (forall v s1 s1', sim s1 s1' -> simr (k (v, s1)) (k' (v, s1'))) ->
+  simr (bind r k) (bind r' k').
+Proof.
+  intros A B r r' k k' H Hk. destruct r as [[v s1]|e], r' as [[v' s1']|e']; cbn [simr] in H; try contradiction.
+  - destruct H as [-> Hs]. cbn [bind]. apply Hk. assumption.
+  - cbn [bind simr]. assumption.
+Qed.
+
+Lemma simr_bind0 : forall A B (r : res A) (k k' : A -> res (B * pst)),
+  (forall v, simr (k v) (k' v)) -> simr (bind r k) (bind r k').
+Proof.
+  intros A B r k k' Hk. destruct r as [v|e]; cbn [bind]; [apply Hk|reflexivity].
+Qed.
+
+Lemma simr_ok : forall A (v : A) s s', sim s s' -> simr (Ok (v, s)) (Ok (v, s')).
+Proof. intros A v s s' H. cbn [simr]. split; [reflexivity|assumption]. Qed.
+
+Lemma simr_err : forall A k, @simr A (Err k) (Err k).
+Proof. intros. reflexivity. Qed.
+
+Lemma sim_cur : forall s s', sim s s' -> cur s = cur s'.
+Proof. intros s s' [H _]. exact H. Qed.
+
+Lemma cur_is_sim : forall ty s s', sim s s' -> cur_is ty s = cur_is ty s'.
+Proof. intros ty s s' H. unfold cur_is. rewrite (sim_cur _ _ H). reflexivity. Qed.
+
+Lemma conditions_end_sim : forall g s s', sim s s' -> conditions_end g s = conditions_end g s'.
+Proof. intros g s s' H. unfold conditions_end. rewrite (sim_cur _ _ H). reflexivity. Qed.
+
+(* ---------- step 5: lifting ---------- *)
+
+(* premise solver for the first argument of simr_bind *)
+Ltac sim_prem :=
+  first [ apply consume_sim; assumption
+        | assumption
+        | match goal with H : _ |- _ => apply H; assumption end ].
+
+(* peel one monadic step *)
+Ltac sb :=
+  lazymatch goal with
+  | |- simr (bind _ _) (bind _ _) =>
+    first [ apply simr_bind; [sim_prem | intros ? ? ? ?; cbv beta iota]
+          | apply simr_bind0; intros ?; cbv beta iota ]
+  | |- simr (Ok (_, _)) (Ok (_, _)) => apply simr_ok; assumption
+  | |- simr (Err _) (Err _) => reflexivity
+  end.
+
+(* make both sides test the same boolean / look at the same current token *)
+Ltac same_cur_is :=
+  match goal with
+  | H : sim ?s ?s' |- context [cur_is ?ty ?s] => rewrite (cur_is_sim ty s s' H)
+  end.
+Ltac same_cur :=
+  match goal with
+  | H : sim ?s ?s' |- context [cur ?s] => rewrite (sim_cur s s' H)
+  end.
+
+Lemma is_not_sim : forall s s', sim s s' -> simr (is_not s) (is_not s').
+Proof.
+  intros s s' H. unfold is_not. same_cur_is. destruct (cur_is c02_T_NOT s'); repeat sb.
+Qed.
+
+Lemma comma_loop_sim : forall f acc s s', sim s s' -> simr (comma_loop f acc s) (comma_loop f acc s').
+Proof.
+  induction f as [|f IH]; intros acc s s' H; [reflexivity|].
+  cbn [comma_loop]. same_cur_is. destruct (cur_is c02_T_COMMA s'); [|sb].
+  sb. sb. apply IH. assumption.
+Qed.
+
+Lemma parse_comma_ids_sim : forall f s s', sim s s' -> simr (parse_comma_ids f s) (parse_comma_ids f s').
+Proof.
+  intros f s s' H. unfold parse_comma_ids. sb. apply comma_loop_sim. assumption.
+Qed.
+
+Lemma parse_score_sim : forall n s s', sim s s' -> simr (parse_score n s) (parse_score n s').
+Proof.
+  intros n s s' H. unfold parse_score. repeat sb.
+Qed.
+
+Lemma parse_minimum_sim : forall f n s s', sim s s' -> simr (parse_minimum f n s) (parse_minimum f n s').
+Proof.
+  intros f n s s' H. unfold parse_minimum. do 5 sb.
+  apply simr_bind; [apply parse_comma_ids_sim; assumption|intros ? ? ? ?; cbv beta iota].
+  repeat sb.
+Qed.
+
+Definition S_single f := forall allow s s', sim s s' -> simr (parse_single f allow s) (parse_single f allow s').
+Definition S_cds f := forall s s', sim s s' -> simr (parse_cds f s) (parse_cds f s').
+Definition S_ands f := forall allow lv s s', sim s s' -> simr (parse_ands f allow lv s) (parse_ands f allow lv s').
+Definition S_andloop f := forall allow acc s s', sim s s' -> simr (and_loop f allow acc s) (and_loop f allow acc s').
+Definition S_conds f := forall allow g s s', sim s s' ->
+  simr (parse_conditions f allow g s) (parse_conditions f allow g s').
+Definition S_condloop f := forall allow acc lv app s s', sim s s' ->
+  simr (cond_loop f allow acc lv app s) (cond_loop f allow acc lv app s').
+
+Lemma parser_sim : forall f, S_single f /\ S_cds f /\ S_ands f /\ S_andloop f /\ S_conds f /\ S_condloop f.
+Proof.
+  induction f as [|f IH].
+  - repeat split; red; intros; reflexivity.
+  - destruct IH as [IHs [IHc [IHa [IHal [IHcs IHcl]]]]].
+    red in IHs, IHc, IHa, IHal, IHcs, IHcl.
+    repeat split; red.
+    + (* parse_single *)
+      intros allow s s' H. cbn [parse_single].
+      apply simr_bind; [apply is_not_sim; assumption|intros negated s1 s1' H1; cbv beta iota].
+      same_cur. destruct (cur s1') as [t|]; [|reflexivity].
+      destruct (ttype t =? c02_T_GROUP_OPEN).
+      { sb. apply simr_bind; [apply IHcs; assumption|intros ? ? ? ?; cbv beta iota]. repeat sb. }
+      destruct (allow && (ttype t =? c02_T_MINIMUM)).
+      { apply parse_minimum_sim; assumption. }
+      destruct (allow && (ttype t =? c02_T_CDS)).
+      { apply simr_bind; [apply IHc; assumption|intros ? ? ? ?; cbv beta iota]. repeat sb. }
+      destruct (ttype t =? c02_T_SCORE).
+      { apply parse_score_sim; assumption. }
+      repeat sb.
+    + (* parse_cds *)
+      intros s s' H. cbn [parse_cds]. sb. sb.
+      apply simr_bind; [apply IHcs; assumption|intros subs ? ? ?; cbv beta iota].
+      destruct subs as [|c [|c2 subs]]; [reflexivity| |repeat sb].
+      destruct (is_single_cond c); [reflexivity|repeat sb].
+    + (* parse_ands *)
+      intros allow lv s s' H. cbn [parse_ands]. sb.
+      apply simr_bind; [apply IHs; assumption|intros ? ? ? ?; cbv beta iota].
+      apply simr_bind; [apply IHal; assumption|intros ? ? ? ?; cbv beta iota].
+      repeat sb.
+    + (* and_loop *)
+      intros allow acc s s' H. cbn [and_loop]. same_cur_is. destruct (cur_is c02_T_AND s'); [|sb].
+      sb. apply simr_bind; [apply IHs; assumption|intros ? ? ? ?; cbv beta iota].
+      apply IHal. assumption.
+    + (* parse_conditions *)
+      intros allow g s s' H. cbn [parse_conditions]. same_cur. destruct (cur s'); [|reflexivity].
+      apply simr_bind; [apply IHs; assumption|intros ? ? ? ?; cbv beta iota].
+      apply simr_bind; [apply IHcl; assumption|intros conds s2 s2' H2; cbv beta iota].
+      rewrite (conditions_end_sim g s2 s2' H2). repeat sb.
+    + (* cond_loop *)
+      intros allow acc lv app s s' H. cbn [cond_loop]. same_cur_is. destruct (cur_is c02_T_AND s').
+      { apply simr_bind; [apply IHa; assumption|intros ? ? ? ?; cbv beta iota]. apply IHcl. assumption. }
+      same_cur_is. destruct (cur_is c02_T_OR s'); [|sb].
+      sb. apply simr_bind; [apply IHs; assumption|intros ? ? ? ?; cbv beta iota].
+      apply IHcl. assumption.
+Qed.
+
+Lemma parse_conditions_sim : forall f allow g s s', sim s s' ->
+  simr (parse_conditions f allow g s) (parse_conditions f allow g s').
+Proof. intros f. destruct (parser_sim f) as [_ [_ [_ [_ [H _]]]]]. exact H. Qed.
+
+(* step 6 *)
+Lemma alias_subst_whole : forall f allow g c L L' cons als,
+  Xp als L L' ->
+  simr (parse_conditions f allow g (mkP (Some c) L cons als))
+       (parse_conditions f allow g (mkP (Some c) L' cons als)).
+Proof.
+  intros f allow g c L L' cons als H. apply parse_conditions_sim.
+  repeat split. cbn [aliases rest]. exact H.
+Qed.
+
+(* in plain words: parsing the conditions from a stream that uses alias names, and parsing the stream with
+   every alias name replaced by its definition, either both fail with the same kind of error or both
+   succeed with the same conditions, the same current token and the same consumed tokens; what is left
+   of the second stream is the expansion of what is left of the first *)
+Corollary alias_subst_whole_plain : forall f allow g c L L' cons als,
+  Xp als L L' ->
+  (forall cs s1, parse_conditions f allow g (mkP (Some c) L cons als) = Ok (cs, s1) ->
+     exists s1', parse_conditions f allow g (mkP (Some c) L' cons als) = Ok (cs, s1') /\
+                 cur s1 = cur s1' /\ consumed s1 = consumed s1' /\ aliases s1 = aliases s1' /\
+                 Xp (aliases s1) (rest s1) (rest s1')) /\
+  (forall k, parse_conditions f allow g (mkP (Some c) L cons als) = Err k ->
+     parse_conditions f allow g (mkP (Some c) L' cons als) = Err k).
+Proof.
+  intros f allow g c L L' cons als H. pose proof (alias_subst_whole f allow g c L L' cons als H) as S.
+  split.
+  - intros cs s1 E. rewrite E in S.
+    destruct (parse_conditions f allow g (mkP (Some c) L' cons als)) as [[cs' s1']|k']; cbn [simr] in S; [|contradiction].
+    destruct S as [-> Hs]. exists s1'. split; [reflexivity|exact Hs].
+  - intros k E. rewrite E in S.
+    destruct (parse_conditions f allow g (mkP (Some c) L' cons als)) as [[cs' s1']|k']; cbn [simr] in S; [contradiction|].
+    subst. reflexivity.
+Qed.
+
+(* and the other direction: the result on the expanded stream determines the result on the alias stream *)
+Corollary alias_subst_whole_conv : forall f allow g c L L' cons als,
+  Xp als L L' ->
+  (forall cs s1', parse_conditions f allow g (mkP (Some c) L' cons als) = Ok (cs, s1') ->
+     exists s1, parse_conditions f allow g (mkP (Some c) L cons als) = Ok (cs, s1) /\ sim s1 s1') /\
+  (forall k, parse_conditions f allow g (mkP (Some c) L' cons als) = Err k ->
+     parse_conditions f allow g (mkP (Some c) L cons als) = Err k).
+Proof.
+  intros f allow g c L L' cons als H. pose proof (alias_subst_whole f allow g c L L' cons als H) as S.
+  split.
+  - intros cs s1' E. rewrite E in S.
+    destruct (parse_conditions f allow g (mkP (Some c) L cons als)) as [[cs' s1]|k']; cbn [simr] in S; [|contradiction].
+    destruct S as [-> Hs]. exists s1. split; [reflexivity|exact Hs].
+  - intros k E. rewrite E in S.
+    destruct (parse_conditions f allow g (mkP (Some c) L cons als)) as [[cs' s1]|k']; cbn [simr] in S; [contradiction|].
+    subst. reflexivity.
+Qed.
+
+(* ---------- step 7: a closed instance ----------
+   DEFINE x AS a or b      DEFINE y AS c and x      (y's definition uses x, not in first position)
+   CONDITIONS d or y or e   is read as   d or c and a or b or e *)
+Definition ex_als : list (str * list token) :=
+  [(codes "y", [set_aliased (mk_token (codes "c")); set_aliased (mk_token (codes "and")); set_aliased (mk_token (codes "x"))]);
+   (codes "x", [set_aliased (mk_token (codes "a")); set_aliased (mk_token (codes "or")); set_aliased (mk_token (codes "b"))])].
+Definition ex_cur : token := mk_token (codes "d").
+Definition ex_L : list token :=
+  [mk_token (codes "or"); mk_token (codes "y"); mk_token (codes "or"); mk_token (codes "e")].
+Definition ex_L' : list token :=
+  [mk_token (codes "or");
+   set_aliased (mk_token (codes "c")); set_aliased (mk_token (codes "and"));
+   set_aliased (mk_token (codes "a")); set_aliased (mk_token (codes "or")); set_aliased (mk_token (codes "b"));
+   mk_token (codes "or"); mk_token (codes "e")].
+
+Lemma ex_Xp : Xp ex_als ex_L ex_L'.
+Proof.
+  unfold ex_L, ex_L'.
+  apply Xp_keep; [vm_compute; reflexivity|].
+  apply (Xp_splice ex_als (mk_token (codes "y")) _ (set_aliased (mk_token (codes "c")))
+           [set_aliased (mk_token (codes "and")); set_aliased (mk_token (codes "x"))]);
+    [vm_compute; reflexivity|vm_compute; reflexivity|vm_compute; reflexivity|cbn [app]].
+  apply Xp_keep; [vm_compute; reflexivity|].
+  apply (Xp_splice ex_als (set_aliased (mk_token (codes "x"))) _ (set_aliased (mk_token (codes "a")))
+           [set_aliased (mk_token (codes "or")); set_aliased (mk_token (codes "b"))]);
+    [vm_compute; reflexivity|vm_compute; reflexivity|vm_compute; reflexivity|cbn [app]].
+  repeat (apply Xp_keep; [vm_compute; reflexivity|]). apply Xp_nil.
+Qed.
+
+Definition ex_conds : list cond :=
+  [CSingle false (codes "d");
+   CAnd [CSingle false (codes "c"); CSingle false (codes "a")];
+   CSingle false (codes "b"); CSingle false (codes "e")].
+
+Lemma ex_parse_alias_stream :
+  exists s1, parse_conditions 20 true false (mkP (Some ex_cur) ex_L [] ex_als) = Ok (ex_conds, s1)
+             /\ cur s1 = None /\ rest s1 = [].
+Proof. eexists. split; [vm_compute; reflexivity|]. split; reflexivity. Qed.
+
+Lemma ex_parse_expanded_stream :
+  exists s1, parse_conditions 20 true false (mkP (Some ex_cur) ex_L' [] ex_als) = Ok (ex_conds, s1)
+             /\ cur s1 = None /\ rest s1 = [].
+Proof. eexists. split; [vm_compute; reflexivity|]. split; reflexivity. Qed.
+
+(* the two runs end in the very same state: same consumed tokens (with their aliased flags) *)
+Lemma ex_same_result :
+  parse_conditions 20 true false (mkP (Some ex_cur) ex_L [] ex_als)
+  = parse_conditions 20 true false (mkP (Some ex_cur) ex_L' [] ex_als).
+Proof. vm_compute. reflexivity. Qed.
+
+(* the instance of the general statement is not vacuous: its hypothesis holds and its Ok branch is taken *)
+Lemma ex_instance :
+  simr (parse_conditions 20 true false (mkP (Some ex_cur) ex_L [] ex_als))
+       (parse_conditions 20 true false (mkP (Some ex_cur) ex_L' [] ex_als)).
+Proof. apply alias_subst_whole. exact ex_Xp. Qed.
+
+(* the proviso matters: with  DEFINE q AS b   DEFINE y AS q and a  the stream "or y" is NOT read like "or b and a";
+   no expansion L' of [y] exists at all *)
+Definition bad_als : list (str * list token) :=
+  [(codes "q", [set_aliased (mk_token (codes "b"))]);
+   (codes "y", [set_aliased (mk_token (codes "q")); set_aliased (mk_token (codes "and")); set_aliased (mk_token (codes "a"))])].
+Lemma ex_proviso_needed : forall L', ~ Xp bad_als [mk_token (codes "y")] L'.
+Proof.
+  intros L' H. inversion H as [|n r r' Hn Hr|n r b B r' Hn Hg Hb Hr]; subst.
+  - vm_compute in Hn. discriminate Hn.
+  - vm_compute in Hg. inversion Hg; subst. vm_compute in Hb. discriminate Hb.
+Qed.
+
+(* ====================================================================== *)
+(* N. unknown profile: every name in the CONDITIONS of an accepted rule is a signature *)
+(* ====================================================================== *)
+(* ====================================================================== *)
+(* L. an unknown profile name in the CONDITIONS of a rule is rejected      *)
+(* ====================================================================== *)
+
+Fixpoint cond_names (c : cond) : list str :=
+  match c with
+  | CSingle _ a => [a] | CScore _ a _ => [a] | CMin _ _ opts => opts
+  | CCds _ subs | CGroup _ subs => flat_map cond_names subs
+  | CAnd ops => flat_map cond_names ops
+  end.
+Definition tok_ids (T : list token) : list str :=
+  map ttext (filter (fun t => ttype t =? c02_T_IDENTIFIER) T).
+
+Lemma tok_ids_nil : tok_ids [] = [].
+Proof. reflexivity. Qed.
+Lemma tok_ids_app : forall A B, tok_ids (A ++ B) = tok_ids A ++ tok_ids B.
+Proof. intros A B. unfold tok_ids. rewrite filter_app, map_app. reflexivity. Qed.
+Lemma tok_ids_cons : forall t T,
+  tok_ids (t :: T) = (if ttype t =? c02_T_IDENTIFIER then [ttext t] else []) ++ tok_ids T.
+Proof. intros t T. unfold tok_ids. cbn [filter]. destruct (ttype t =? c02_T_IDENTIFIER); reflexivity. Qed.
+
+Lemma notp_ids : forall neg N, notp neg N -> tok_ids N = [].
+Proof.
+  intros neg N H. destruct neg; cbn [notp] in H.
+  - destruct H as [nt [HN Hnt]]. subst N. rewrite tok_ids_cons, Hnt. reflexivity.
+  - subst N. reflexivity.
+Qed.
+
+Ltac tys := repeat match goal with H : ttype ?t = _ |- context [ttype ?t] => rewrite H end.
+Ltac idn := repeat first [rewrite tok_ids_app | rewrite tok_ids_cons | rewrite tok_ids_nil];
+            tys; tyc; cbn [app]; rewrite ?app_nil_r.
+
+Lemma idtail_names : forall T l, H_idtail T l -> incl l (tok_ids T).
+Proof.
+  induction 1 as [|c t T l Hc Ht _ IH]; [apply incl_refl|].
+  idn. apply incl_cons; [left; reflexivity|]. apply incl_tl. exact IH.
+Qed.
+
+(* Lemma A *)
+Lemma H_names : forall allow,
+  (forall T c, H_un allow T c -> incl (cond_names c) (tok_ids T)) /\
+  (forall T cs, H_andtail allow T cs -> incl (flat_map cond_names cs) (tok_ids T)) /\
+  (forall T c, H_item allow T c -> incl (cond_names c) (tok_ids T)) /\
+  (forall T cs, H_ortail allow T cs -> incl (flat_map cond_names cs) (tok_ids T)) /\
+  (forall T cs, H_ors allow T cs -> incl (flat_map cond_names cs) (tok_ids T)).
+Proof.
+  apply H_mutind.
+  - intros allow neg N t HN Ht. idn. rewrite (notp_ids _ _ HN). cbn [app cond_names]. apply incl_refl.
+  - intros allow neg N m o i cm sc c HN Hm Ho Hi Hcm Hsc Hc. idn. rewrite (notp_ids _ _ HN).
+    cbn [app cond_names]. apply incl_refl.
+  - intros allow neg N m o k cm lo i Tt l lc c HN Hal Hm Ho Hk Hcm Hlo Hi Hid Hlc Hc. idn.
+    rewrite (notp_ids _ _ HN). cbn [app cond_names].
+    apply incl_cons; [left; reflexivity|]. apply incl_tl. apply idtail_names. exact Hid.
+  - intros allow neg N o T cs c HN Ho Hc _ IH. idn. rewrite (notp_ids _ _ HN). cbn [app cond_names]. exact IH.
+  - intros allow neg N k o T cs c HN Hal Hk Ho Hc _ IH Hcont. idn. rewrite (notp_ids _ _ HN).
+    cbn [app cond_names]. exact IH.
+  - intros allow. apply incl_refl.
+  - intros allow a T c T' cs Ha _ IHu _ IHt. idn. cbn [flat_map].
+    apply incl_app; [apply incl_appl; exact IHu|apply incl_appr; exact IHt].
+  - intros allow T c _ IH. exact IH.
+  - intros allow T1 c1 T2 cs _ IHu _ IHt Hne. idn. cbn [cond_names flat_map].
+    apply incl_app; [apply incl_appl; exact IHu|apply incl_appr; exact IHt].
+  - intros allow. apply incl_refl.
+  - intros allow o T c T' cs Ho _ IHi _ IHt. idn. cbn [flat_map].
+    apply incl_app; [apply incl_appl; exact IHi|apply incl_appr; exact IHt].
+  - intros allow T c T' cs _ IHi _ IHt. idn. cbn [flat_map].
+    apply incl_app; [apply incl_appl; exact IHi|apply incl_appr; exact IHt].
+Qed.
+
+(* Lemma A': every token of a grammatical token list is a condition token (type < 100) *)
+Definition lowb (T : list token) : bool := forallb (fun t => ttype t <? 100) T.
+
+Lemma lowb_app : forall A B, lowb (A ++ B) = lowb A && lowb B.
+Proof. intros. apply forallb_app. Qed.
+Lemma lowb_cons : forall t T, lowb (t :: T) = (ttype t <? 100) && lowb T.
+Proof. reflexivity. Qed.
+
+Lemma notp_low : forall neg N, notp neg N -> lowb N = true.
+Proof.
+  intros neg N H. destruct neg; cbn [notp] in H.
+  - destruct H as [nt [HN Hnt]]. subst N. rewrite lowb_cons, Hnt. reflexivity.
+  - subst N. reflexivity.
+Qed.
+
+Lemma idtail_low : forall T l, H_idtail T l -> lowb T = true.
+Proof.
+  induction 1 as [|c t T l Hc Ht _ IH]; [reflexivity|].
+  rewrite !lowb_cons, Hc, Ht, IH. reflexivity.
+Qed.
+
+Ltac lown := repeat first [rewrite lowb_app | rewrite lowb_cons]; tys.
+
+Lemma H_low : forall allow,
+  (forall T c, H_un allow T c -> lowb T = true) /\
+  (forall T cs, H_andtail allow T cs -> lowb T = true) /\
+  (forall T c, H_item allow T c -> lowb T = true) /\
+  (forall T cs, H_ortail allow T cs -> lowb T = true) /\
+  (forall T cs, H_ors allow T cs -> lowb T = true).
+Proof.
+  apply H_mutind.
+  - intros allow neg N t HN Ht. lown. rewrite (notp_low _ _ HN). reflexivity.
+  - intros allow neg N m o i cm sc c HN Hm Ho Hi Hcm Hsc Hc. lown. rewrite (notp_low _ _ HN). reflexivity.
+  - intros allow neg N m o k cm lo i Tt l lc c HN Hal Hm Ho Hk Hcm Hlo Hi Hid Hlc Hc. lown.
+    rewrite (notp_low _ _ HN), (idtail_low _ _ Hid). reflexivity.
+  - intros allow neg N o T cs c HN Ho Hc _ IH. lown. rewrite (notp_low _ _ HN), IH. reflexivity.
+  - intros allow neg N k o T cs c HN Hal Hk Ho Hc _ IH Hcont. lown. rewrite (notp_low _ _ HN), IH. reflexivity.
+  - intros allow. reflexivity.
+  - intros allow a T c T' cs Ha _ IHu _ IHt. lown. rewrite IHu, IHt. reflexivity.
+  - intros allow T c _ IH. exact IH.
+  - intros allow T1 c1 T2 cs _ IHu _ IHt Hne. lown. rewrite IHu, IHt. reflexivity.
+  - intros allow. reflexivity.
+  - intros allow o T c T' cs Ho _ IHi _ IHt. lown. rewrite IHi, IHt. reflexivity.
+  - intros allow T c T' cs _ IHi _ IHt. lown. rewrite IHi, IHt. reflexivity.
+Qed.
+
+Definition no_keyword (T : list token) : bool := forallb (fun t => negb (is_rule_keyword (ttype t))) T.
+
+Lemma low_no_keyword : forall T, lowb T = true -> no_keyword T = true.
+Proof.
+  intros T H. unfold lowb, no_keyword in *. rewrite forallb_forall in *. intros t Ht. specialize (H t Ht).
+  unfold is_rule_keyword. apply Z.ltb_lt in H.
+  destruct (c02_T_RULE <=? ttype t) eqn:E; [|reflexivity]. apply Z.leb_le in E.
+  change c02_T_RULE with 100 in E. clear - H E. lia.
+Qed.
+
+Lemma low_no_conditions : forall T, lowb T = true -> forallb (fun t => negb (ttype t =? c02_T_CONDITIONS)) T = true.
+Proof.
+  intros T H. unfold lowb in *. rewrite forallb_forall in *. intros t Ht. specialize (H t Ht).
+  apply Z.ltb_lt in H. destruct (ttype t =? c02_T_CONDITIONS) eqn:E; [|reflexivity]. apply Z.eqb_eq in E.
+  change c02_T_CONDITIONS with 104 in E. clear - H E. lia.
+Qed.
+
+Lemma H_ors_no_keyword : forall allow T cs, H_ors allow T cs ->
+  no_keyword T = true /\ forallb (fun t => negb (ttype t =? c02_T_CONDITIONS)) T = true.
+Proof.
+  intros allow T cs H. destruct (H_low allow) as [_ [_ [_ [_ Hors]]]]. apply Hors in H.
+  split; [apply low_no_keyword|apply low_no_conditions]; exact H.
+Qed.
+
+(* Lemma B: find_condition_identifiers returns every identifier between CONDITIONS and the next keyword *)
+Lemma ci_section : forall Tc B, no_keyword Tc = true ->
+  incl (tok_ids Tc) (condition_identifiers (Tc ++ B) true).
+Proof.
+  induction Tc as [|t Tc IH]; intros B H; [intros a Ha; destruct Ha|].
+  unfold no_keyword in H. cbn [forallb] in H. apply andb_true_iff in H. destruct H as [Ht H].
+  apply negb_true_iff in Ht. specialize (IH B H).
+  cbn [app condition_identifiers]. rewrite Ht.
+  assert (Hc : ttype t =? c02_T_CONDITIONS = false).
+  { destruct (ttype t =? c02_T_CONDITIONS) eqn:E; [|reflexivity]. apply Z.eqb_eq in E. rewrite E in Ht.
+    vm_compute in Ht. discriminate Ht. }
+  rewrite Hc. rewrite tok_ids_cons. cbn [andb].
+  destruct (ttype t =? c02_T_IDENTIFIER); cbn [app].
+  - apply incl_cons; [left; reflexivity|]. apply incl_tl. exact IH.
+  - exact IH.
+Qed.
+
+Lemma ci_conditions : forall A ck Tc B flag, ttype ck = c02_T_CONDITIONS -> no_keyword Tc = true ->
+  incl (tok_ids Tc) (condition_identifiers (A ++ ck :: Tc ++ B) flag).
+Proof.
+  induction A as [|a A IH]; intros ck Tc B flag Hck Hn.
+  - cbn [app condition_identifiers]. rewrite Hck. rewrite Z.eqb_refl. apply ci_section. exact Hn.
+  - cbn [app condition_identifiers].
+    destruct (ttype a =? c02_T_CONDITIONS); [apply IH; assumption|].
+    destruct (is_rule_keyword (ttype a)); [apply IH; assumption|].
+    destruct (flag && (ttype a =? c02_T_IDENTIFIER)); [apply incl_tl|]; apply IH; assumption.
+Qed.
+
+(* Lemma C: every parsing function only prepends to the consumed tokens *)
+Definition ext (s s' : pst) : Prop := exists T, trace s s' T.
+
+Lemma ext_refl : forall s, ext s s.
+Proof. intros s. exists []. apply trace_nil. Qed.
+Lemma ext_trans : forall s s1 s2, ext s s1 -> ext s1 s2 -> ext s s2.
+Proof. intros s s1 s2 [a Ha] [b Hb]. exists (a ++ b). eapply trace_app; eassumption. Qed.
+Lemma ext_same : forall s s', consumed s' = consumed s -> ext s s'.
+Proof. intros s s' H. exists []. unfold trace. rewrite H. reflexivity. Qed.
+Lemma trace_ext : forall s s' T, trace s s' T -> ext s s'.
+Proof. intros s s' T H. exists T. exact H. Qed.
+
+Ltac ex := first [eassumption | apply ext_refl | (eapply ext_trans; [eassumption | ex])].
+
+Lemma consume_ext : forall k s t s', consume k s = Ok (t, s') -> ext s s'.
+Proof. intros k s t s' H. apply consume_trace in H. destruct H as [H _]. eapply trace_ext; eassumption. Qed.
+
+Lemma parse_comma_ids_ext : forall f s l s', parse_comma_ids f s = Ok (l, s') -> ext s s'.
+Proof.
+  intros f s l s' H. apply parse_comma_ids_trace in H. destruct H as [i [Tt [l' [H _]]]].
+  eapply trace_ext; eassumption.
+Qed.
+
+Lemma parse_conditions_ext : forall f allow g s cs s', parse_conditions f allow g s = Ok (cs, s') -> ext s s'.
+Proof.
+  intros f allow g s cs s' H. apply precedence_sound in H. destruct H as [T [H _]]. exists T. exact H.
+Qed.
+
+Lemma parse_single_ext : forall f allow s c s', parse_single f allow s = Ok (c, s') -> ext s s'.
+Proof.
+  intros f. destruct (parser_grammar f) as [Hs _]. intros allow s c s' H. apply Hs in H.
+  destruct H as [T [H _]]. exists T. exact H.
+Qed.
+
+Lemma parse_cds_ext : forall f s cs s', parse_cds f s = Ok (cs, s') -> ext s s'.
+Proof.
+  intros f. destruct (parser_grammar f) as [_ [Hc _]]. intros s cs s' H. apply Hc in H.
+  destruct H as [k [o [T [c [H _]]]]]. eapply trace_ext; eassumption.
+Qed.
+
+Ltac cext :=
+  repeat match goal with
+         | E : consume _ _ = Ok _ |- _ => apply consume_ext in E
+         | E : parse_comma_ids _ _ = Ok _ |- _ => apply parse_comma_ids_ext in E
+         | E : parse_single _ _ _ = Ok _ |- _ => apply parse_single_ext in E
+         | E : parse_cds _ _ = Ok _ |- _ => apply parse_cds_ext in E
+         | E : parse_conditions _ _ _ _ = Ok _ |- _ => apply parse_conditions_ext in E
+         end.
+
+Lemma parse_extenders_ext : forall f s e s', parse_extenders f s = Ok (e, s') -> ext s s'.
+Proof.
+  intros f s e s' H. unfold parse_extenders in H. repeat step H; inversion H; subst; clear H; cext; ex.
+Qed.
+
+Lemma parse_superiors_ext : forall f known s l s', parse_superiors f known s = Ok (l, s') -> ext s s'.
+Proof.
+  intros f known s l s' H. unfold parse_superiors in H. repeat step H; inversion H; subst; clear H; cext; ex.
+Qed.
+
+Lemma parse_description_ext : forall s d s', parse_description s = Ok (d, s') -> ext s s'.
+Proof.
+  intros s d s' H. unfold parse_description in H. repeat step H; inversion H; subst; clear H; cext.
+  eapply ext_trans; [eassumption|]. apply ext_same. reflexivity.
+Qed.
+
+Lemma parse_example_ext : forall s e s', parse_example s = Ok (e, s') -> ext s s'.
+Proof.
+  intros s e s' H. unfold parse_example in H. repeat step H; inversion H; subst; clear H; cext;
+  match goal with
+  | E : match cur ?s6 with _ => _ end = Ok (_, ?s7) |- _ =>
+    assert (Hs : ext s6 s7) by (repeat step E; inversion E; subst; clear E; apply ext_same; reflexivity)
+  end; ex.
+Qed.
+
+Lemma examples_loop_ext : forall f acc s l s', examples_loop f acc s = Ok (l, s') -> ext s s'.
+Proof.
+  induction f as [|f IH]; intros acc s l s' H; cbn [examples_loop] in H; [discriminate H|].
+  repeat step H.
+  - apply IH in H. match goal with E : parse_example _ = Ok _ |- _ => apply parse_example_ext in E end. ex.
+  - inversion H; subst. apply ext_refl.
+Qed.
+
+Lemma alias_loop_ext : forall f acc s l s', alias_loop f acc s = Ok (l, s') -> ext s s'.
+Proof.
+  induction f as [|f IH]; intros acc s l s' H; cbn [alias_loop] in H; [discriminate H|].
+  repeat step H; try (inversion H; subst; apply ext_refl).
+  apply IH in H. cext. ex.
+Qed.
+
+Lemma parse_alias_ext : forall f s name toks s', parse_alias f s = Ok (name, toks, s') -> ext s s'.
+Proof.
+  intros f s name toks s' H. unfold parse_alias in H. repeat step H; inversion H; subst; clear H; cext;
+  match goal with E : alias_loop _ _ _ = Ok _ |- _ => apply alias_loop_ext in E end; ex.
+Qed.
+
+Lemma opt_desc_ext : forall (c : bool) s d s',
+  (if c then parse_description s else Ok ([], s)) = Ok (d, s') -> ext s s'.
+Proof. intros c s d s' H. destruct c; [eapply parse_description_ext; eassumption|inversion H; apply ext_refl]. Qed.
+
+Lemma opt_related_ext : forall (c : bool) f s l s',
+  (if c then do (_, s1) <- consume c02_T_RELATED s; parse_comma_ids f s1 else Ok ([], s)) = Ok (l, s') -> ext s s'.
+Proof.
+  intros c f s l s' H. destruct c; [|inversion H; apply ext_refl]. repeat step H. cext. ex.
+Qed.
+
+Lemma opt_sup_ext : forall (c : bool) f known s l s',
+  (if c then parse_superiors f known s else Ok ([], s)) = Ok (l, s') -> ext s s'.
+Proof. intros c f known s l s' H. destruct c; [eapply parse_superiors_ext; eassumption|inversion H; apply ext_refl]. Qed.
+
+(* the consumed tokens of one RULE block: ... CONDITIONS <a grammatical condition list> ... *)
+Lemma parse_rule_trace : forall f known cats s r s',
+  parse_rule f known cats s = Ok (r, s') ->
+  exists A ck Tc B, trace s s' (A ++ ck :: Tc ++ B) /\ ttype ck = c02_T_CONDITIONS /\
+    exists cs, r_cond r = CGroup false cs /\ G_ors true Tc cs.
+Proof.
+  intros f known cats s r s' H. unfold parse_rule in H. repeat step H. inversion H; subst; clear H.
+  cbn [r_cond].
+  match goal with E : mk_group _ _ = Ok _ |- _ => apply mk_group_ok in E; subst end.
+  match goal with E : parse_conditions _ _ _ _ = Ok _ |- _ =>
+    apply precedence_sound in E; destruct E as [Tc [HTc HG]] end.
+  match goal with E : consume c02_T_CONDITIONS _ = Ok _ |- _ =>
+    apply consume_trace in E; destruct E as [Hck Htck] end.
+  match goal with E : parse_extenders _ _ = Ok _ |- _ => apply parse_extenders_ext in E; destruct E as [B HB] end.
+  match goal with E : examples_loop _ _ _ = Ok _ |- _ => apply examples_loop_ext in E end.
+  match goal with E : (if _ then parse_description _ else _) = Ok _ |- _ => apply opt_desc_ext in E end.
+  match goal with E : (if _ then parse_superiors _ _ _ else _) = Ok _ |- _ => apply opt_sup_ext in E end.
+  match goal with E : (if _ then bind _ _ else _) = Ok _ |- _ => apply opt_related_ext in E end.
+  cext.
+  match goal with Hck : trace ?s12 _ [?ck] |- _ =>
+    assert (HA : ext s s12) by ex; destruct HA as [A HA]; exists A, ck, Tc, B end.
+  split; [|split; [assumption|]].
+  - eapply trace_app; [eassumption|]. eapply (trace_app _ _ _ [_]); [eassumption|].
+    eapply trace_app; [exact HTc|exact HB].
+  - eexists. split; [reflexivity|assumption].
+Qed.
+
+(* T covers r: wherever T sits in the consumed tokens, find_condition_identifiers returns the names of r *)
+Definition covers (T : list token) (r : rule) : Prop :=
+  forall P Q flag, incl (cond_names (r_cond r)) (condition_identifiers (P ++ T ++ Q) flag).
+
+Lemma covers_ext : forall X T Y r, covers T r -> covers (X ++ T ++ Y) r.
+Proof.
+  intros X T Y r H P Q flag. specialize (H (P ++ X) (Y ++ Q) flag).
+  repeat rewrite <- app_assoc in *. exact H.
+Qed.
+
+Lemma rule_covers : forall A ck Tc B cs r, ttype ck = c02_T_CONDITIONS -> G_ors true Tc cs ->
+  r_cond r = CGroup false cs -> covers (A ++ ck :: Tc ++ B) r.
+Proof.
+  intros A ck Tc B cs r Hck HG Hr P Q flag. rewrite Hr. cbn [cond_names].
+  apply G_ors_H_ors in HG. destruct (H_names true) as [_ [_ [_ [_ Hn]]]].
+  eapply incl_tran; [apply Hn; exact HG|].
+  replace (P ++ (A ++ ck :: Tc ++ B) ++ Q) with ((P ++ A) ++ ck :: Tc ++ (B ++ Q))
+    by (repeat rewrite <- app_assoc; cbn [app]; repeat rewrite <- app_assoc; reflexivity).
+  apply ci_conditions; [exact Hck|]. eapply H_ors_no_keyword. exact HG.
+Qed.
+
+Lemma main_loop_covers : forall n sigs cats m rules s rules' s',
+  main_loop n sigs cats m rules s = Ok (rules', s') ->
+  exists new T, rules' = rules ++ new /\ trace s s' T /\ Forall (covers T) new.
+Proof.
+  induction n as [|n IH]; intros sigs cats m rules s rules' s' H; cbn [main_loop] in H; [discriminate H|].
+  destruct (cur s) as [t|].
+  2:{ inversion H; subst. exists [], []. split; [rewrite app_nil_r; reflexivity|]. split; [apply trace_nil|constructor]. }
+  destruct (negb (is_starter (ttype t))); [discriminate H|].
+  destruct (ttype t =? c02_T_DEFINE).
+  - repeat step H.
+    match goal with E : parse_alias _ _ = Ok _ |- _ => apply parse_alias_ext in E; destruct E as [T1 HT1] end.
+    apply IH in H. destruct H as [new [T2 [Hr [HT2 Hc]]]].
+    exists new, (T1 ++ T2). split; [exact Hr|]. split.
+    + unfold trace in *. cbn [consumed] in HT2. rewrite HT2, HT1, rev_app_distr, app_assoc. reflexivity.
+    + eapply Forall_impl; [|exact Hc]. intros r Hcr.
+      pose proof (covers_ext T1 T2 [] r Hcr) as Hx. rewrite app_nil_r in Hx. exact Hx.
+  - repeat step H.
+    match goal with E : parse_rule _ _ _ _ = Ok _ |- _ =>
+      apply parse_rule_trace in E; destruct E as [A [ck [Tc [B [HT1 [Hck [cs [Hrc HG]]]]]]]] end.
+    apply IH in H. destruct H as [new [T2 [Hr [HT2 Hc]]]].
+    eexists (_ :: new), ((A ++ ck :: Tc ++ B) ++ T2). split; [|split].
+    + rewrite Hr, <- app_assoc. reflexivity.
+    + eapply trace_app; eassumption.
+    + constructor.
+      * pose proof (rule_covers A ck Tc B cs) as Hx.
+        match goal with |- covers _ ?r' => specialize (Hx r' Hck HG Hrc) end.
+        pose proof (covers_ext [] _ T2 _ Hx) as Hy. exact Hy.
+      * eapply Forall_impl; [|exact Hc]. intros r0 Hcr.
+        pose proof (covers_ext (A ++ ck :: Tc ++ B) T2 [] r0 Hcr) as Hx. rewrite app_nil_r in Hx. exact Hx.
+Qed.
+
+Lemma unknown_profile_rejected : forall text sigs cats m rules als rules' als',
+  parse_text text sigs cats m rules als = Ok (rules', als') ->
+  exists new, rules' = rules ++ new /\
+    Forall (fun r => forall a, In a (cond_names (r_cond r)) -> In a sigs) new.
+Proof.
+  intros text sigs cats m rules als rules' als' H. unfold parse_text in H. repeat step H.
+  inversion H; subst; clear H.
+  match goal with E : main_loop _ _ _ _ _ _ = Ok _ |- _ =>
+    apply main_loop_covers in E; destruct E as [new [T [Hr [HT Hc]]]] end.
+  exists new. split; [exact Hr|].
+  unfold trace in HT. cbn [consumed] in HT. rewrite app_nil_r in HT.
+  match goal with C : forallb _ (condition_identifiers (rev (consumed ?p)) false) = true |- _ =>
+    rewrite HT, rev_involutive in C; rename C into Hall end.
+  rewrite forallb_forall in Hall.
+  eapply Forall_impl; [|exact Hc]. intros r Hcr nm Hnm.
+  apply smem_In. apply Hall. specialize (Hcr [] [] false). rewrite app_nil_r in Hcr. cbn [app] in Hcr.
+  apply Hcr. exact Hnm.
+Qed.
+
+Lemma unknown_profile_extenders_refuted : exists text sigs cats r,
+  parse_text text sigs cats (mkM 1 1 1 1) [] [] = Ok ([r], []) /\
+  exists e a, r_ext r = Some e /\ In a (cond_names e) /\ ~ In a sigs.
+Proof.
+  exists (codes "RULE r1 CATEGORY cat CUTOFF 1 NEIGHBOURHOOD 1 CONDITIONS a EXTENDERS zz"),
+         [codes "a"], [codes "cat"].
+  eexists. split; [vm_compute; reflexivity|].
+  eexists. exists (codes "zz"). split; [reflexivity|]. split; [left; reflexivity|].
+  intros [H|[]]. vm_compute in H. discriminate H.
 Qed.
